@@ -21,12 +21,18 @@ End NodeInd.
 Section StInd.
   Variable P : st -> Prop.
   Hypothesis Hp : forall n, P (SPend n).
-  Hypothesis Hd : forall k d, P (SDone k d).
+  Hypothesis Hd : forall k d bg, Forall P bg -> P (SDone k d bg).
   Hypothesis Hr : forall k nn kd sts rest, Forall P sts -> P (SRun k nn kd sts rest).
   Fixpoint st_ind' (s : st) : P s :=
     match s with
     | SPend n => Hp n
-    | SDone k d => Hd k d
+    | SDone k d bg =>
+        Hd k d bg
+          ((fix go (l : list st) : Forall P l :=
+              match l with
+              | [] => Forall_nil P
+              | c :: r => Forall_cons c (st_ind' c) (go r)
+              end) bg)
     | SRun k nn kd sts rest =>
         Hr k nn kd sts rest
           ((fix go (l : list st) : Forall P l :=
@@ -39,20 +45,20 @@ End StInd.
 
 (* ------------------------------------------------------------------ unfolding lemmas *)
 
-Lemma finish_go_eq kd : forall rest acc,
+Lemma finish_go_eq lp kd : forall rest acc,
   (fix go (acc : list st) (rest : list node) : kres * list ev :=
      match rest with
      | [] => (KOk acc [], [])
      | c :: r =>
          if blocked kd acc then (KOk acc rest, [])
          else
-           let '(rc, e1) := if is_async c then (ROk (SPend c), []) else finish c in
+           let '(rc, e1) := if is_async c then (ROk (SPend c), []) else finish lp c in
            let e1' := ECall [key c] :: shift (key c) e1 in
            match rc with
-           | RFail e => (KFail (key c :: e), e1' ++ map EOrphan (pend_list acc))
+           | RFail e zs => (KFail (key c :: e) (abandon lp acc (key c) zs), e1' ++ map EOrphan (live_list acc))
            | ROk s => let '(r2, e2) := go (acc ++ [s]) r in (r2, e1' ++ e2)
            end
-     end) acc rest = start_from kd acc rest.
+     end) acc rest = start_from lp kd acc rest.
 Proof.
   induction rest as [|c r IH]; intros acc; [reflexivity|].
   cbn [start_from]. unfold start. destruct (blocked kd acc); [reflexivity|].
@@ -60,13 +66,25 @@ Proof.
   rewrite IH. reflexivity.
 Qed.
 
-Lemma finish_eq k nn a kd ks :
-  finish (Node k nn a (OKids kd) ks) = finish_kids nn k kd (start_from kd [] ks).
+Lemma finish_eq lp k nn a kd ks :
+  finish lp (Node k nn a (OKids kd) ks) = finish_kids nn k kd (start_from lp kd [] ks).
 Proof. cbn [finish]. rewrite finish_go_eq. reflexivity. Qed.
 
 Lemma pend_run k nn kd sts rest : pend (SRun k nn kd sts rest) = pend_list sts.
 Proof.
   cbn [pend]. unfold pend_list. induction sts as [|c r IH]; [reflexivity|].
+  cbn [flat_map]. rewrite <- IH. reflexivity.
+Qed.
+
+Lemma pend_done k d bg : pend (SDone k d bg) = pend_list bg.
+Proof.
+  cbn [pend]. unfold pend_list. induction bg as [|c r IH]; [reflexivity|].
+  cbn [flat_map]. rewrite <- IH. reflexivity.
+Qed.
+
+Lemma live_run k nn kd sts rest : live (SRun k nn kd sts rest) = live_list sts.
+Proof.
+  cbn [live]. unfold live_list. induction sts as [|c r IH]; [reflexivity|].
   cbn [flat_map]. rewrite <- IH. reflexivity.
 Qed.
 
@@ -85,11 +103,25 @@ Lemma complete_run k nn kd sts rest pi :
   | c :: pi' =>
       match complete_kids c pi' sts with
       | CNone => None
-      | CSome pre (RFail e) post evs =>
-          Some (handle nn k (c :: e) (shift c evs ++ map ECancel (pend_list (pre ++ post))))
+      | CSome pre (RFail e zs) post evs =>
+          Some (handle nn k (c :: e) (map skel pre ++ ghost c zs :: map skel post)
+                  (shift c evs ++ map ECancel (live_list (pre ++ post))))
       | CSome pre (ROk s') post evs =>
-          let '(r2, e2) := start_from kd (pre ++ s' :: post) rest in
+          let '(r2, e2) := start_from true kd (pre ++ s' :: post) rest in
           Some (finish_kids nn k kd (r2, shift c evs ++ e2))
+      end
+  end.
+Proof. destruct pi; reflexivity. Qed.
+
+Lemma complete_done k d bg pi :
+  complete pi (SDone k d bg) =
+  match pi with
+  | [] => None
+  | c :: pi' =>
+      match complete_kids c pi' bg with
+      | CNone => None
+      | CSome pre rx post evs =>
+          Some (ROk (SDone k d (pre ++ settle_res c rx :: post)), map to_bg (shift c evs))
       end
   end.
 Proof. destruct pi; reflexivity. Qed.
@@ -99,25 +131,35 @@ Lemma complete_kids_spec c pi : forall sts pre r post evs,
   exists x, sts = pre ++ x :: post /\ skey x = c /\ complete pi x = Some (r, evs).
 Proof.
   induction sts as [|x l IH]; intros pre r post evs H; cbn in H; [discriminate|].
-  destruct (skey x =? c) eqn:E.
-  - destruct (complete pi x) as [[rx e]|] eqn:Ec; [|discriminate].
-    inversion H; subst. exists x. apply N.eqb_eq in E. repeat split; auto.
+  destruct (if skey x =? c then complete pi x else None) as [[rx e]|] eqn:E.
+  - inversion H; subst. destruct (skey x =? c) eqn:Ek; [|discriminate].
+    apply N.eqb_eq in Ek. exists x. repeat split; auto.
   - fold (complete_kids c pi l) in H.
     destruct (complete_kids c pi l) as [|pre' rx post' e] eqn:El; [discriminate|].
     inversion H; subst. destruct (IH _ _ _ _ eq_refl) as (y & -> & Hk & Hc).
     exists y. repeat split; auto.
 Qed.
 
+Lemma complete_kids_some c pi : forall sts x r e,
+  In x sts -> skey x = c -> complete pi x = Some (r, e) -> complete_kids c pi sts <> CNone.
+Proof.
+  induction sts as [|y l IH]; intros x r e Hin Hk Hc; [destruct Hin|]. cbn.
+  destruct (if skey y =? c then complete pi y else None) as [[ry ey]|] eqn:E; [discriminate|].
+  fold (complete_kids c pi l). destruct Hin as [->|Hin].
+  - rewrite Hk, N.eqb_refl, Hc in E. discriminate.
+  - specialize (IH x r e Hin Hk Hc). destruct (complete_kids c pi l); [contradiction|discriminate].
+Qed.
+
 (* ------------------------------------------------------------------ states represent the tree *)
 
 Inductive Rep : st -> node -> Prop :=
 | Rep_pend n : Rep (SPend n) n
-| Rep_done n d : den n = Some d -> Rep (SDone (key n) d) n
+| Rep_done n d bg : den n = Some d -> Rep (SDone (key n) d bg) n
 | Rep_run k nn a kd ks1 rest sts :
-    Forall2 Rep sts ks1 -> all_done sts = false ->
+    Forall2 Rep sts ks1 -> all_done sts = false \/ blocked kd sts = true ->
     Rep (SRun k nn kd sts rest) (Node k nn a (OKids kd) (ks1 ++ rest)).
 
-Lemma Rep_done' k d n : den n = Some d -> k = key n -> Rep (SDone k d) n.
+Lemma Rep_done' k d bg n : den n = Some d -> k = key n -> Rep (SDone k d bg) n.
 Proof. intros H ->. constructor. exact H. Qed.
 
 Lemma rep_key s n : Rep s n -> skey s = key n.
@@ -155,16 +197,16 @@ Proof.
   rewrite H. reflexivity.
 Qed.
 
-Definition FinishSpec (c : node) : Prop :=
-  match finish c with
+Definition FinishSpec (lp : bool) (c : node) : Prop :=
+  match finish lp c with
   | (ROk s, _) => Rep s c
-  | (RFail _, _) => den c = None
+  | (RFail _ _, _) => den c = None
   end.
 
-Lemma start_spec c : FinishSpec c ->
-  match start c with
+Lemma start_spec lp c : FinishSpec lp c ->
+  match start lp c with
   | (ROk s, _) => Rep s c
-  | (RFail _, _) => den c = None
+  | (RFail _ _, _) => den c = None
   end.
 Proof. unfold start, FinishSpec. destruct (is_async c); [constructor|auto]. Qed.
 
@@ -172,23 +214,22 @@ Lemma Forall2_snoc {A B} (R : A -> B -> Prop) l1 l2 a b :
   Forall2 R l1 l2 -> R a b -> Forall2 R (l1 ++ [a]) (l2 ++ [b]).
 Proof. intros H1 H2. apply Forall2_app; [assumption|constructor; [assumption|constructor]]. Qed.
 
-Lemma start_from_rep kd : forall rest acc ks1,
-  Forall FinishSpec rest -> Forall2 Rep acc ks1 ->
-  match start_from kd acc rest with
+Lemma start_from_rep lp kd : forall rest acc ks1,
+  Forall (FinishSpec lp) rest -> Forall2 Rep acc ks1 ->
+  match start_from lp kd acc rest with
   | (KOk sts rest', _) =>
-      exists ks2, rest = ks2 ++ rest' /\ Forall2 Rep sts (ks1 ++ ks2) /\ (rest' <> [] -> all_done sts = false)
-  | (KFail _, _) => den_kids rest = None
+      exists ks2, rest = ks2 ++ rest' /\ Forall2 Rep sts (ks1 ++ ks2) /\ (rest' <> [] -> blocked kd sts = true)
+  | (KFail _ _, _) => den_kids rest = None
   end.
 Proof.
   induction rest as [|c r IH]; intros acc ks1 HF HA; cbn [start_from].
   - exists []. split; [reflexivity|]. split; [rewrite app_nil_r; assumption|]. intros H; exfalso; apply H; reflexivity.
   - destruct (blocked kd acc) eqn:Eb.
-    + exists []. split; [reflexivity|]. split; [rewrite app_nil_r; assumption|]. intros _.
-      unfold blocked in Eb. destruct kd; try discriminate. apply negb_true_iff in Eb. exact Eb.
+    + exists []. split; [reflexivity|]. split; [rewrite app_nil_r; assumption|]. intros _. exact Eb.
     + inversion HF as [|? ? Hc Hr]; subst.
-      pose proof (start_spec c Hc) as Hs. destruct (start c) as [rc e1]. destruct rc as [s|e].
+      pose proof (start_spec lp c Hc) as Hs. destruct (start lp c) as [rc e1]. destruct rc as [s|e zs].
       * specialize (IH (acc ++ [s]) (ks1 ++ [c]) Hr (Forall2_snoc _ _ _ _ _ HA Hs)).
-        destruct (start_from kd (acc ++ [s]) r) as [r2 e2]. destruct r2 as [sts rest'|e].
+        destruct (start_from lp kd (acc ++ [s]) r) as [r2 e2]. destruct r2 as [sts rest'|e zs].
         -- destruct IH as (ks2 & -> & H2 & H3). exists (c :: ks2). repeat split; auto.
            rewrite <- app_assoc in H2. exact H2.
         -- rewrite den_kids_cons, IH. destruct (den c); reflexivity.
@@ -196,21 +237,21 @@ Proof.
 Qed.
 
 Lemma pack_rep k nn a kd ks1 sts rest :
-  Forall2 Rep sts ks1 -> (rest <> [] -> all_done sts = false) ->
+  Forall2 Rep sts ks1 -> (rest <> [] -> blocked kd sts = true) ->
   Rep (pack k nn kd sts rest) (Node k nn a (OKids kd) (ks1 ++ rest)).
 Proof.
   intros HF Hd. unfold pack. destruct rest as [|x rest].
   - destruct (all_done sts) eqn:E.
     + apply Rep_done'; [|reflexivity]. rewrite den_kids_eq, app_nil_r, (rep_all_done _ _ HF E). reflexivity.
-    + constructor; assumption.
-  - constructor; [assumption|]. apply Hd. discriminate.
+    + constructor; auto.
+  - constructor; [assumption|]. right. apply Hd. discriminate.
 Qed.
 
-Lemma handle_rep nn k a kd ks e evs :
+Lemma handle_rep nn k a kd ks e zs evs :
   den_kids ks = None ->
-  match handle nn k e evs with
+  match handle nn k e zs evs with
   | (ROk s, _) => Rep s (Node k nn a (OKids kd) ks)
-  | (RFail _, _) => den (Node k nn a (OKids kd) ks) = None
+  | (RFail _ _, _) => den (Node k nn a (OKids kd) ks) = None
   end.
 Proof.
   intros H. unfold handle. destruct nn.
@@ -218,15 +259,15 @@ Proof.
   - apply Rep_done'; [|reflexivity]. rewrite den_kids_eq, H. reflexivity.
 Qed.
 
-Lemma finish_spec : forall n, FinishSpec n.
+Lemma finish_spec lp : forall n, FinishSpec lp n.
 Proof.
   apply node_ind'. intros k nn a o ks IH. unfold FinishSpec. destruct o.
   - cbn. unfold handle. destruct nn; [reflexivity|]. apply Rep_done'; reflexivity.
   - cbn. destruct nn; [reflexivity|]. apply Rep_done'; reflexivity.
   - cbn. apply Rep_done'; reflexivity.
   - rewrite finish_eq.
-    pose proof (start_from_rep kd ks [] [] IH (Forall2_nil _)) as H.
-    destruct (start_from kd [] ks) as [r2 e2]. destruct r2 as [sts rest'|e]; cbn [finish_kids].
+    pose proof (start_from_rep lp kd ks [] [] IH (Forall2_nil _)) as H.
+    destruct (start_from lp kd [] ks) as [r2 e2]. destruct r2 as [sts rest'|e zs]; cbn [finish_kids].
     + destruct H as (ks2 & -> & H2 & H3). cbn [app] in H2. apply pack_rep; assumption.
     + apply handle_rep. exact H.
 Qed.
@@ -243,24 +284,26 @@ Lemma complete_rep : forall s n pi, Rep s n ->
   match complete pi s with
   | None => True
   | Some (ROk s', _) => Rep s' n
-  | Some (RFail _, _) => den n = None
+  | Some (RFail _ _, _) => den n = None
   end.
 Proof.
-  induction s as [m|k d|k nn kd sts rest IH] using st_ind'; intros n pi HR.
+  induction s as [m|k d bg IHb|k nn kd sts rest IH] using st_ind'; intros n pi HR.
   - inversion HR; subst. destruct pi; cbn; [|exact I].
-    pose proof (finish_spec n) as H. unfold FinishSpec in H. destruct (finish n) as [r e]. exact H.
-  - cbn. exact I.
+    pose proof (finish_spec true n) as H. unfold FinishSpec in H. destruct (finish true n) as [r e]. exact H.
+  - rewrite complete_done. destruct pi as [|c pi']; [exact I|].
+    destruct (complete_kids c pi' bg) as [|pre rx post evs]; [exact I|].
+    inversion HR; subst. constructor. assumption.
   - rewrite complete_run. destruct pi as [|c pi']; [exact I|].
     destruct (complete_kids c pi' sts) as [|pre rx post evs] eqn:Ek; [exact I|].
     apply complete_kids_spec in Ek as (x & -> & Hk & Hc).
     inversion HR as [| |? ? a ? ks1 ? ? HF Hnd]; subst.
     apply Forall2_app_inv_l' in HF as (l1' & y & l2' & -> & H1 & Hxy & H2).
     rewrite Forall_forall in IH. specialize (IH x (in_elt _ _ _) y pi' Hxy). rewrite Hc in IH.
-    destruct rx as [s'|e].
+    destruct rx as [s'|e zs].
     + assert (HF' : Forall2 Rep (pre ++ s' :: post) (l1' ++ y :: l2'))
         by (apply Forall2_app; [assumption|constructor; assumption]).
-      pose proof (start_from_rep kd rest _ _ (proj2 (Forall_forall _ _) (fun c _ => finish_spec c)) HF') as H.
-      destruct (start_from kd (pre ++ s' :: post) rest) as [r2 e2]. destruct r2 as [sts' rest'|e]; cbn [finish_kids].
+      pose proof (start_from_rep true kd rest _ _ (proj2 (Forall_forall _ _) (fun c _ => finish_spec true c)) HF') as H.
+      destruct (start_from true kd (pre ++ s' :: post) rest) as [r2 e2]. destruct r2 as [sts' rest'|e zs]; cbn [finish_kids].
       * destruct H as (ks2 & -> & H3 & H4). rewrite app_assoc. apply pack_rep; assumption.
       * apply handle_rep. rewrite den_kids_app, H.
         destruct (den_kids (l1' ++ y :: l2')); reflexivity.
@@ -276,8 +319,9 @@ Proof.
   apply IH. pose proof (complete_rep s n pi HR) as H. rewrite Hc in H. exact H.
 Qed.
 
-Lemma init_rep root : match init root with (ROk s, _) => Rep s root | (RFail _, _) => den root = None end.
-Proof. exact (finish_spec root). Qed.
+Lemma init_rep lp root :
+  match init lp root with (ROk s, _) => Rep s root | (RFail _ _, _) => den root = None end.
+Proof. exact (finish_spec lp root). Qed.
 
 Lemma den_nullable n : nonnull n = false -> den n <> None.
 Proof.
@@ -285,29 +329,48 @@ Proof.
   rewrite den_kids_eq. destruct (den_kids ks); discriminate.
 Qed.
 
-Lemma exec_rep root sched s evs : Exec root sched s evs -> Rep s root.
+Lemma exec_rep lp root sched s evs : Exec lp root sched s evs -> Rep s root.
 Proof.
-  intros (s0 & e0 & e1 & Hi & Hr & _). pose proof (init_rep root) as H. rewrite Hi in H.
+  intros (s0 & e0 & e1 & Hi & Hr & _). pose proof (init_rep lp root) as H. rewrite Hi in H.
   eapply run_rep; eauto.
 Qed.
 
-Lemma pend_list_nil sts ks :
-  Forall (fun s => forall n, Rep s n -> pend s = [] -> is_done s = true) sts ->
-  Forall2 Rep sts ks -> pend_list sts = [] -> all_done sts = true.
+Lemma pend_list_cons c r : pend_list (c :: r) = map (cons (skey c)) (pend c) ++ pend_list r.
+Proof. reflexivity. Qed.
+
+Lemma pend_list_in x l : In x l -> pend x <> [] -> pend_list l <> [].
 Proof.
-  intros HF H2. revert HF. induction H2 as [|s n sts ks Hs Hr IH]; intros HF Hp; [reflexivity|].
-  inversion HF as [|? ? Ha Hb]; subst. cbn in Hp. apply app_eq_nil in Hp as [H1 H3].
-  change (is_done s && all_done sts = true). rewrite IH by assumption. rewrite (Ha n Hs); [reflexivity|].
-  destruct (pend s); [reflexivity|discriminate].
+  induction l as [|c r IH]; intros Hin Hp; [destruct Hin|]. rewrite pend_list_cons.
+  destruct Hin as [->|Hin].
+  - destruct (pend x); [contradiction|discriminate].
+  - intros H. apply app_eq_nil in H as [_ H]. exact (IH Hin Hp H).
 Qed.
 
-Lemma rep_final : forall s n, Rep s n -> pend s = [] -> is_done s = true.
+Lemma forallb_false {A} (f : A -> bool) l : forallb f l = false -> exists x, In x l /\ f x = false.
 Proof.
-  induction s as [m|k d|k nn kd sts rest IH] using st_ind'; intros n HR Hp.
+  induction l as [|a r IH]; [discriminate|]. cbn. intros H. apply andb_false_iff in H as [H|H].
+  - exists a. auto.
+  - destruct (IH H) as (x & H1 & H2). exists x. auto.
+Qed.
+
+(* a state that is not done has a pending awaitable *)
+Lemma rep_pending : forall s n, Rep s n -> is_done s = false -> pend s <> [].
+Proof.
+  induction s as [m|k d bg _|k nn kd sts rest IH] using st_ind'; intros n HR Hd.
   - discriminate.
-  - reflexivity.
-  - rewrite pend_run in Hp. inversion HR as [| |? ? a ? ks1 ? ? HF Hnd]; subst.
-    rewrite (pend_list_nil sts ks1 IH) in Hnd by assumption. discriminate.
+  - discriminate.
+  - rewrite pend_run. inversion HR as [| |? ? a ? ks1 ? ? HF Hnd]; subst.
+    rewrite Forall_forall in IH.
+    assert (Hkid : forall x, In x sts -> is_done x = false -> pend x <> []).
+    { intros x Hx Hxd. apply in_split in Hx as (pre & post & ->).
+      apply Forall2_app_inv_l' in HF as (l1' & y & l2' & _ & _ & Hxy & _).
+      exact (IH x (in_elt _ _ _) y Hxy Hxd). }
+    destruct Hnd as [Hnd|Hb].
+    + apply forallb_false in Hnd as (x & Hx & Hxd). exact (pend_list_in x sts Hx (Hkid x Hx Hxd)).
+    + unfold blocked in Hb. destruct kd; try discriminate. apply negb_true_iff in Hb.
+      apply forallb_false in Hb as (x & Hx & Hxs). apply (pend_list_in x sts Hx).
+      unfold settled in Hxs. destruct (is_done x) eqn:Ed; [|exact (Hkid x Hx Ed)].
+      cbn in Hxs. destruct (pend x); [discriminate|discriminate].
 Qed.
 
 (* ------------------------------------------------------------------ termination measure *)
@@ -324,136 +387,163 @@ Qed.
 Fixpoint weight (s : st) : nat :=
   match s with
   | SPend n => S (asyncsK n)
-  | SDone _ _ => 0
+  | SDone _ _ bg =>
+      (fix go (l : list st) : nat := match l with [] => 0 | c :: r => weight c + go r end) bg
   | SRun _ _ _ sts rest =>
       (fix go (l : list st) : nat := match l with [] => 0 | c :: r => weight c + go r end) sts
       + asyncs_list rest
   end%nat.
 Definition weight_list (l : list st) : nat := fold_right (fun c acc => weight c + acc)%nat 0%nat l.
+Definition weight_res (r : res) : nat :=
+  match r with ROk s => weight s | RFail _ zs => weight_list zs end.
 
 Lemma weight_run k nn kd sts rest :
   weight (SRun k nn kd sts rest) = (weight_list sts + asyncs_list rest)%nat.
-Proof.
-  reflexivity.
-Qed.
+Proof. reflexivity. Qed.
+
+Lemma weight_done k d bg : weight (SDone k d bg) = weight_list bg.
+Proof. reflexivity. Qed.
 
 Lemma weight_list_app l1 l2 : weight_list (l1 ++ l2) = (weight_list l1 + weight_list l2)%nat.
 Proof. unfold weight_list. induction l1 as [|c r IH]; cbn [app fold_right]; [reflexivity|]. rewrite IH. lia. Qed.
 
-Definition FinishW (c : node) : Prop :=
-  match finish c with (ROk s, _) => (weight s <= asyncsK c)%nat | _ => True end.
+Lemma weight_list_cons c l : weight_list (c :: l) = (weight c + weight_list l)%nat.
+Proof. reflexivity. Qed.
 
-Lemma start_weight c : FinishW c ->
-  match start c with (ROk s, _) => (weight s <= asyncs c)%nat | _ => True end.
+Lemma weight_skel : forall s, (weight (skel s) <= weight s)%nat.
 Proof.
-  unfold start, FinishW. rewrite asyncs_eq. destruct (is_async c); [cbn; lia|].
-  destruct (finish c) as [[s|e] ev]; [lia|auto].
+  induction s as [m|k d bg _|k nn kd sts rest IH] using st_ind'.
+  - cbn. lia.
+  - cbn [skel]. lia.
+  - cbn [skel]. rewrite weight_done, weight_run.
+    assert (weight_list (map skel sts) <= weight_list sts)%nat; [|lia].
+    induction IH as [|c r Hc _ IHr]; [cbn; lia|]. cbn [map]. rewrite !weight_list_cons. lia.
 Qed.
 
-Lemma start_from_weight kd : forall rest acc,
-  Forall FinishW rest ->
-  match start_from kd acc rest with
-  | (KOk sts rest', _) => (weight_list sts + asyncs_list rest' <= weight_list acc + asyncs_list rest)%nat
-  | _ => True
-  end.
+Lemma weight_map_skel l : (weight_list (map skel l) <= weight_list l)%nat.
+Proof.
+  induction l as [|c r IH]; [cbn; lia|]. cbn [map]. rewrite !weight_list_cons.
+  pose proof (weight_skel c). lia.
+Qed.
+
+Lemma weight_abandon lp acc k zs :
+  (weight_list (abandon lp acc k zs) <= weight_list acc + weight_list zs)%nat.
+Proof.
+  unfold abandon. destruct lp; [|cbn; lia]. rewrite weight_list_app, weight_list_cons.
+  change (weight (ghost k zs)) with (weight_list zs). cbn [weight_list fold_right]. lia.
+Qed.
+
+Definition FinishW (lp : bool) (c : node) : Prop :=
+  (weight_res (fst (finish lp c)) <= asyncsK c)%nat.
+
+Lemma start_weight lp c : FinishW lp c -> (weight_res (fst (start lp c)) <= asyncs c)%nat.
+Proof.
+  unfold start, FinishW. rewrite asyncs_eq. destruct (is_async c); [cbn; lia|lia].
+Qed.
+
+Definition weight_kres (r : kres) : nat :=
+  match r with KOk sts rest => weight_list sts + asyncs_list rest | KFail _ zs => weight_list zs end%nat.
+
+Lemma start_from_weight lp kd : forall rest acc,
+  Forall (FinishW lp) rest ->
+  (weight_kres (fst (start_from lp kd acc rest)) <= weight_list acc + asyncs_list rest)%nat.
 Proof.
   induction rest as [|c r IH]; intros acc HF; cbn [start_from].
   - cbn. lia.
-  - destruct (blocked kd acc); [lia|].
-    inversion HF as [|? ? Hc Hr]; subst. pose proof (start_weight c Hc) as Hs.
-    destruct (start c) as [[s|e] e1]; [|exact I].
-    specialize (IH (acc ++ [s]) Hr). destruct (start_from kd (acc ++ [s]) r) as [[sts rest'|e] e2]; [|exact I].
-    rewrite weight_list_app in IH. cbn in IH. cbn [asyncs_list fold_right]. fold (asyncs_list r). lia.
-Qed.
-
-Lemma all_done_weight sts : all_done sts = true -> weight_list sts = 0%nat.
-Proof.
-  induction sts as [|c r IH]; [reflexivity|]. cbn. intros H. apply andb_true_iff in H as [H1 H2].
-  destruct c; try discriminate. cbn. auto.
+  - destruct (blocked kd acc); [cbn [fst weight_kres]; lia|].
+    inversion HF as [|? ? Hc Hr]; subst. pose proof (start_weight lp c Hc) as Hs.
+    destruct (start lp c) as [[s|e zs] e1]; cbn [fst weight_res] in Hs.
+    + specialize (IH (acc ++ [s]) Hr). destruct (start_from lp kd (acc ++ [s]) r) as [r2 e2].
+      cbn [fst] in *. rewrite weight_list_app in IH. cbn in IH. cbn [asyncs_list fold_right]. fold (asyncs_list r). lia.
+    + cbn [fst weight_kres]. pose proof (weight_abandon lp acc (key c) zs).
+      cbn [asyncs_list fold_right]. fold (asyncs_list r). lia.
 Qed.
 
 Lemma pack_weight k nn kd sts rest :
   (weight (pack k nn kd sts rest) <= weight_list sts + asyncs_list rest)%nat.
 Proof.
-  unfold pack. destruct rest; [destruct (all_done sts)|]; try rewrite weight_run; cbn; lia.
+  unfold pack. destruct rest; [destruct (all_done sts)|]; try rewrite weight_run; try rewrite weight_done; cbn; lia.
 Qed.
 
-Lemma handle_weight nn k e evs :
-  match handle nn k e evs with (ROk s, _) => weight s = 0%nat | _ => True end.
-Proof. unfold handle. destruct nn; [exact I|reflexivity]. Qed.
+Lemma handle_weight nn k e zs evs : weight_res (fst (handle nn k e zs evs)) = weight_list zs.
+Proof. unfold handle. destruct nn; reflexivity. Qed.
 
-Lemma finish_kids_weight nn k kd r evs (w : nat) :
-  match r with KOk sts rest => (weight_list sts + asyncs_list rest <= w)%nat | _ => True end ->
-  match finish_kids nn k kd (r, evs) with (ROk s, _) => (weight s <= w)%nat | _ => True end.
+Lemma finish_kids_weight nn k kd r evs :
+  (weight_res (fst (finish_kids nn k kd (r, evs))) <= weight_kres r)%nat.
 Proof.
-  destruct r as [sts rest|e]; cbn [finish_kids]; intros H.
-  - pose proof (pack_weight k nn kd sts rest). lia.
-  - pose proof (handle_weight nn k e evs) as Hh. destruct (handle nn k e evs) as [[s|?] ?]; [lia|exact I].
+  destruct r as [sts rest|e zs]; cbn [finish_kids weight_kres].
+  - cbn [fst weight_res]. apply pack_weight.
+  - rewrite handle_weight. lia.
 Qed.
 
-Lemma finish_weight : forall n, FinishW n.
+Lemma finish_weight lp : forall n, FinishW lp n.
 Proof.
-  apply node_ind'. intros k nn a o ks IH. unfold FinishW. destruct o; try (cbn; unfold handle; destruct nn; cbn; lia).
-  rewrite finish_eq. pose proof (start_from_weight kd ks [] IH) as H.
-  destruct (start_from kd [] ks) as [r2 e2]. apply finish_kids_weight.
-  destruct r2; [|exact I]. cbn in H. cbn [asyncsK]. lia.
+  apply node_ind'. intros k nn a o ks IH. unfold FinishW. destruct o.
+  - cbn [finish]. rewrite handle_weight. cbn. lia.
+  - cbn [finish]. destruct nn; [rewrite handle_weight|]; cbn; lia.
+  - cbn. lia.
+  - rewrite finish_eq. pose proof (start_from_weight lp kd ks [] IH) as H.
+    destruct (start_from lp kd [] ks) as [r2 e2]. pose proof (finish_kids_weight nn k kd r2 e2).
+    cbn [fst] in H. cbn [asyncsK]. cbn in H. lia.
 Qed.
 
 Lemma complete_weight : forall s pi r e,
-  complete pi s = Some (r, e) ->
-  (1 <= weight s)%nat /\ forall s', r = ROk s' -> (weight s' < weight s)%nat.
+  complete pi s = Some (r, e) -> (weight_res r < weight s)%nat.
 Proof.
-  induction s as [m|k d|k nn kd sts rest IH] using st_ind'; intros pi r e H.
+  induction s as [m|k d bg IH|k nn kd sts rest IH] using st_ind'; intros pi r e H.
   - destruct pi; cbn in H; [|discriminate].
-    pose proof (finish_weight m) as Hw. unfold FinishW in Hw. destruct (finish m) as [r0 e0].
-    inversion H; subst. cbn [weight]. split; [lia|]. intros s' ->. lia.
-  - discriminate.
+    pose proof (finish_weight true m) as Hw. unfold FinishW in Hw. destruct (finish true m) as [r0 e0].
+    inversion H; subst. cbn [weight fst] in *. lia.
+  - rewrite complete_done in H. destruct pi as [|c pi']; [discriminate|].
+    destruct (complete_kids c pi' bg) as [|pre rx post evs] eqn:Ek; [discriminate|].
+    apply complete_kids_spec in Ek as (x & -> & Hk & Hc).
+    rewrite Forall_forall in IH. pose proof (IH x (in_elt _ _ _) _ _ _ Hc) as Hx.
+    inversion H; subst. cbn [weight_res]. rewrite !weight_done, !weight_list_app, !weight_list_cons.
+    assert (weight (settle_res (skey x) rx) = weight_res rx) by (destruct rx; reflexivity). lia.
   - rewrite complete_run in H. destruct pi as [|c pi']; [discriminate|].
     destruct (complete_kids c pi' sts) as [|pre rx post evs] eqn:Ek; [discriminate|].
     apply complete_kids_spec in Ek as (x & -> & Hk & Hc).
-    rewrite Forall_forall in IH. destruct (IH x (in_elt _ _ _) _ _ _ Hc) as [Hx1 Hx2].
-    rewrite weight_run, weight_list_app. cbn [weight_list fold_right]. fold (weight_list post).
-    split; [lia|]. intros s' ->. destruct rx as [x'|ex].
-    + specialize (Hx2 x' eq_refl).
-      pose proof (start_from_weight kd rest (pre ++ x' :: post)
-                    (proj2 (Forall_forall _ _) (fun c _ => finish_weight c))) as Hs.
-      destruct (start_from kd (pre ++ x' :: post) rest) as [r2 e2].
-      pose proof (finish_kids_weight nn k kd r2 (shift c evs ++ e2)
-                    (weight_list (pre ++ x' :: post) + asyncs_list rest)) as Hf.
-      assert (H0 : finish_kids nn k kd (r2, shift c evs ++ e2) = (ROk s', e)) by congruence.
-      rewrite H0 in Hf.
-      assert (weight s' <= weight_list (pre ++ x' :: post) + asyncs_list rest)%nat
-        by (apply Hf; destruct r2; [exact Hs|exact I]).
-      rewrite weight_list_app in H1. cbn [weight_list fold_right] in H1. fold (weight_list post) in H1. lia.
-    + pose proof (handle_weight nn k (c :: ex) (shift c evs ++ map ECancel (pend_list (pre ++ post)))) as Hh.
-      assert (H0 : handle nn k (c :: ex) (shift c evs ++ map ECancel (pend_list (pre ++ post))) = (ROk s', e)) by congruence.
-      rewrite H0 in Hh. lia.
+    rewrite Forall_forall in IH. pose proof (IH x (in_elt _ _ _) _ _ _ Hc) as Hx.
+    rewrite weight_run, weight_list_app, weight_list_cons.
+    destruct rx as [x'|ex zs]; cbn [weight_res] in Hx.
+    + pose proof (start_from_weight true kd rest (pre ++ x' :: post)
+                    (proj2 (Forall_forall _ _) (fun c _ => finish_weight true c))) as Hs.
+      destruct (start_from true kd (pre ++ x' :: post) rest) as [r2 e2]. cbn [fst] in Hs.
+      pose proof (finish_kids_weight nn k kd r2 (shift c evs ++ e2)) as Hf.
+      assert (H0 : finish_kids nn k kd (r2, shift c evs ++ e2) = (r, e)) by congruence.
+      rewrite H0 in Hf. cbn [fst] in Hf.
+      rewrite weight_list_app, weight_list_cons in Hs. lia.
+    + pose proof (handle_weight nn k (c :: ex) (map skel pre ++ ghost c zs :: map skel post)
+                    (shift c evs ++ map ECancel (live_list (pre ++ post)))) as Hh.
+      assert (H0 : handle nn k (c :: ex) (map skel pre ++ ghost c zs :: map skel post)
+                     (shift c evs ++ map ECancel (live_list (pre ++ post))) = (r, e)) by congruence.
+      rewrite H0 in Hh. cbn [fst] in Hh. rewrite Hh, weight_list_app, weight_list_cons.
+      pose proof (weight_map_skel pre). pose proof (weight_map_skel post).
+      change (weight (ghost c zs)) with (weight_list zs). lia.
 Qed.
 
 Lemma run_weight s sched s' evs : Run s sched s' evs -> (length sched + weight s' <= weight s)%nat.
 Proof.
   induction 1 as [|s pi s1 e1 sched s2 e2 Hc _ IH]; [cbn; lia|].
-  destruct (complete_weight _ _ _ _ Hc) as [_ H]. specialize (H s1 eq_refl). cbn [length]. lia.
+  pose proof (complete_weight _ _ _ _ Hc) as H. cbn [weight_res length] in *. lia.
 Qed.
 
-Theorem terminates root sched s evs :
-  Exec root sched s evs -> (length sched + weight s <= asyncsK root)%nat.
+Theorem terminates lp root sched s evs :
+  Exec lp root sched s evs -> (length sched + weight s <= asyncsK root)%nat.
 Proof.
   intros (s0 & e0 & e1 & Hi & Hr & _). apply run_weight in Hr.
-  pose proof (finish_weight root) as H. unfold FinishW, init in *. rewrite Hi in H. lia.
+  pose proof (finish_weight lp root) as H. unfold FinishW, init in *. rewrite Hi in H. cbn [fst weight_res] in H. lia.
 Qed.
 
 Lemma pend_weight : forall s, weight s = 0%nat -> pend s = [].
 Proof.
-  induction s as [m|k d|k nn kd sts rest IH] using st_ind'; intros H.
+  assert (G : forall l, Forall (fun s => weight s = 0%nat -> pend s = []) l -> weight_list l = 0%nat -> pend_list l = []).
+  { induction l as [|c r IHr]; intros HF Hw; [reflexivity|]. inversion HF; subst.
+    rewrite weight_list_cons in Hw. rewrite pend_list_cons, H1 by lia. cbn [map app]. apply IHr; [assumption|lia]. }
+  induction s as [m|k d bg IH|k nn kd sts rest IH] using st_ind'; intros H.
   - discriminate.
-  - reflexivity.
-  - rewrite pend_run. rewrite weight_run in H.
-    assert (Hw : weight_list sts = 0%nat) by lia. clear H.
-    induction sts as [|c r IHr]; [reflexivity|]. inversion IH; subst.
-    unfold weight_list in Hw. cbn [fold_right] in Hw. fold (weight_list r) in Hw.
-    unfold pend_list. cbn [flat_map]. fold (pend_list r). rewrite H1 by lia. cbn [map app].
-    apply IHr; [assumption|lia].
+  - rewrite pend_done. apply G; [exact IH|exact H].
+  - rewrite pend_run. rewrite weight_run in H. apply G; [exact IH|lia].
 Qed.
 
 (* ------------------------------------------------------------------ the synchronous run *)
@@ -478,70 +568,34 @@ Proof.
 Qed.
 
 Lemma sync_result_den root d :
-  den root = Some d -> exists e, sync_result root = (ROk (SDone (key root) d), e).
+  den root = Some d -> exists bg e, sync_result root = (ROk (SDone (key root) d bg), e).
 Proof.
   intros Hd. unfold sync_result, init.
-  pose proof (finish_spec (desync root)) as Hs. pose proof (finish_weight (desync root)) as Hw.
-  unfold FinishSpec, FinishW in *. destruct (finish (desync root)) as [[s|e] ev].
+  pose proof (finish_spec false (desync root)) as Hs. pose proof (finish_weight false (desync root)) as Hw.
+  unfold FinishSpec, FinishW in *. destruct (finish false (desync root)) as [[s|e zs] ev].
   - assert (weight s = 0%nat).
-    { pose proof (asyncs_desync root) as Ha. rewrite asyncs_eq in Ha. lia. }
-    pose proof (rep_final s _ Hs (pend_weight s H)) as Hdone.
-    inversion Hs; subst; try discriminate. rewrite den_desync, Hd in H0. inversion H0; subst.
-    rewrite desync_key. eauto.
+    { pose proof (asyncs_desync root) as Ha. rewrite asyncs_eq in Ha. cbn [fst weight_res] in Hw. lia. }
+    destruct (is_done s) eqn:Ed.
+    + inversion Hs; subst; try discriminate. rewrite den_desync, Hd in H0. inversion H0; subst.
+      rewrite desync_key. eauto.
+    + exfalso. exact (rep_pending s _ Hs Ed (pend_weight s H)).
   - rewrite den_desync in Hs. congruence.
 Qed.
 
 (* ------------------------------------------------------------------ (b) order independence *)
 
-Theorem order_independent root sched s evs :
-  nonnull root = false -> Exec root sched s evs -> final s ->
-  exists d esync,
-    s = SDone (key root) d /\ den root = Some d /\
-    sync_result root = (ROk (SDone (key root) d), esync).
+Theorem order_independent lp root sched s evs :
+  nonnull root = false -> Exec lp root sched s evs -> final s ->
+  exists d bg bgs esync,
+    s = SDone (key root) d bg /\ den root = Some d /\
+    sync_result root = (ROk (SDone (key root) d bgs), esync).
 Proof.
-  intros Hnn He Hf. pose proof (exec_rep _ _ _ _ He) as HR.
-  pose proof (rep_final s root HR Hf) as Hd.
+  intros Hnn He Hf. pose proof (exec_rep _ _ _ _ _ He) as HR. unfold final in Hf.
   inversion HR; subst; try discriminate.
-  destruct (sync_result_den root d H) as (e & Hs). eauto.
+  destruct (sync_result_den root d H) as (bgs & e & Hs). eauto 10.
 Qed.
 
 (* ------------------------------------------------------------------ progress *)
-
-Fixpoint wfk (n : node) : Prop :=
-  match n with
-  | Node _ _ _ o ks =>
-      match o with
-      | OKids _ =>
-          NoDup (map key ks) /\
-          (fix go (l : list node) : Prop := match l with [] => True | c :: r => wfk c /\ go r end) ks
-      | _ => True
-      end
-  end.
-
-Lemma wfk_kids k nn a kd ks :
-  wfk (Node k nn a (OKids kd) ks) <-> NoDup (map key ks) /\ Forall wfk ks.
-Proof.
-  cbn [wfk]. split; intros [H1 H2]; (split; [exact H1|]).
-  - induction ks as [|c r IH]; constructor; [apply H2|]. apply IH; [inversion H1; assumption|apply H2].
-  - induction H2 as [|c r Hc _ IH]; [exact I|]. split; [exact Hc|]. apply IH. inversion H1; assumption.
-Qed.
-
-Lemma complete_kids_unique pi : forall pre x post,
-  NoDup (map skey (pre ++ x :: post)) ->
-  complete_kids (skey x) pi (pre ++ x :: post) =
-  match complete pi x with
-  | None => CNone
-  | Some (r, e) => CSome pre r post e
-  end.
-Proof.
-  induction pre as [|y pre IH]; intros x post Hn.
-  - cbn. rewrite N.eqb_refl. destruct (complete pi x) as [[r e]|]; reflexivity.
-  - cbn [app complete_kids]. cbn [app map] in Hn. inversion Hn as [|? ? Hnot Hn']; subst.
-    destruct (skey y =? skey x) eqn:E.
-    + apply N.eqb_eq in E. exfalso. apply Hnot. rewrite E, map_app. apply in_elt.
-    + fold (complete_kids (skey x) pi (pre ++ x :: post)). rewrite (IH x post Hn').
-      destruct (complete pi x) as [[r e]|]; reflexivity.
-Qed.
 
 Lemma in_pend_list p sts :
   In p (pend_list sts) -> exists x p', In x sts /\ p = skey x :: p' /\ In p' (pend x).
@@ -550,36 +604,46 @@ Proof.
   apply in_map_iff in Hp as (p' & <- & Hp'). eauto.
 Qed.
 
-Lemma NoDup_app_l {A} (l1 l2 : list A) : NoDup (l1 ++ l2) -> NoDup l1.
+(* every pending awaitable can be completed ... *)
+Lemma enabled : forall s pi, In pi (pend s) -> exists r e, complete pi s = Some (r, e).
 Proof.
-  induction l1 as [|a l IH]; intros H; [constructor|]. inversion H; subst.
-  constructor; [|auto]. intros Hin. apply H2. apply in_or_app. left. exact Hin.
+  induction s as [m|k d bg IH|k nn kd sts rest IH] using st_ind'; intros pi Hp.
+  - destruct Hp as [<-|[]]. cbn. destruct (finish true m) as [r e]. eauto.
+  - rewrite pend_done in Hp. apply in_pend_list in Hp as (x & p' & Hx & -> & Hp').
+    rewrite Forall_forall in IH. destruct (IH x Hx p' Hp') as (r & e & Hc).
+    rewrite complete_done. pose proof (complete_kids_some (skey x) p' bg x r e Hx eq_refl Hc) as Hn.
+    destruct (complete_kids (skey x) p' bg); [contradiction|eauto].
+  - rewrite pend_run in Hp. apply in_pend_list in Hp as (x & p' & Hx & -> & Hp').
+    rewrite Forall_forall in IH. destruct (IH x Hx p' Hp') as (r & e & Hc).
+    rewrite complete_run. pose proof (complete_kids_some (skey x) p' sts x r e Hx eq_refl Hc) as Hn.
+    destruct (complete_kids (skey x) p' sts) as [|pre rx post evs]; [contradiction|].
+    destruct rx as [s'|o zs]; [destruct (start_from true kd (pre ++ s' :: post) rest) as [r2 e2]|];
+      (eexists; eexists; apply f_equal; apply surjective_pairing).
 Qed.
 
-Lemma enabled : forall s n pi, Rep s n -> wfk n -> In pi (pend s) -> exists r e, complete pi s = Some (r, e).
+(* ... and only a pending awaitable can be completed *)
+Lemma complete_pending : forall s pi r e, complete pi s = Some (r, e) -> In pi (pend s).
 Proof.
-  induction s as [m|k d|k nn kd sts rest IH] using st_ind'; intros n pi HR Hw Hp.
-  - destruct Hp as [<-|[]]. cbn. destruct (finish m) as [r e]. eauto.
-  - destruct Hp.
-  - rewrite pend_run in Hp. apply in_pend_list in Hp as (x & p' & Hx & -> & Hp').
-    inversion HR as [| |? ? a ? ks1 ? ? HF Hnd]; subst.
-    apply wfk_kids in Hw as [Hnd' Hwk].
-    apply in_split in Hx as (pre & post & ->).
-    pose proof (Forall2_app_inv_l' _ _ _ _ _ HF) as (l1' & y & l2' & -> & H1 & Hxy & H2).
-    rewrite Forall_forall in IH, Hwk.
-    destruct (IH x (in_elt _ _ _) y p' Hxy) as (r & e & Hc); [apply Hwk; apply in_or_app; left; apply in_elt|exact Hp'|].
-    rewrite complete_run, complete_kids_unique, Hc.
-    + destruct r as [s|o]; [destruct (start_from kd (pre ++ s :: post) rest) as [r2 e2]|];
-        (eexists; eexists; apply f_equal; apply surjective_pairing).
-    + rewrite (rep_keys _ _ HF). rewrite map_app in Hnd'. exact (NoDup_app_l _ _ Hnd').
+  induction s as [m|k d bg IH|k nn kd sts rest IH] using st_ind'; intros pi r e H.
+  - destruct pi; cbn in H; [left; reflexivity|discriminate].
+  - rewrite complete_done in H. destruct pi as [|c pi']; [discriminate|].
+    destruct (complete_kids c pi' bg) as [|pre rx post evs] eqn:Ek; [discriminate|].
+    apply complete_kids_spec in Ek as (x & -> & <- & Hc).
+    rewrite Forall_forall in IH. rewrite pend_done. unfold pend_list. apply in_flat_map.
+    exists x. split; [apply in_elt|]. apply in_map. exact (IH x (in_elt _ _ _) _ _ _ Hc).
+  - rewrite complete_run in H. destruct pi as [|c pi']; [discriminate|].
+    destruct (complete_kids c pi' sts) as [|pre rx post evs] eqn:Ek; [discriminate|].
+    apply complete_kids_spec in Ek as (x & -> & <- & Hc).
+    rewrite Forall_forall in IH. rewrite pend_run. unfold pend_list. apply in_flat_map.
+    exists x. split; [apply in_elt|]. apply in_map. exact (IH x (in_elt _ _ _) _ _ _ Hc).
 Qed.
 
 Theorem progress s n pi :
-  Rep s n -> wfk n -> nonnull n = false -> In pi (pend s) ->
+  Rep s n -> nonnull n = false -> In pi (pend s) ->
   exists s' e, complete pi s = Some (ROk s', e).
 Proof.
-  intros HR Hw Hnn Hp. destruct (enabled s n pi HR Hw Hp) as (r & e & Hc).
-  pose proof (complete_rep s n pi HR) as H. rewrite Hc in H. destruct r as [s'|o]; [eauto|].
+  intros HR Hnn Hp. destruct (enabled s pi Hp) as (r & e & Hc).
+  pose proof (complete_rep s n pi HR) as H. rewrite Hc in H. destruct r as [s'|o zs]; [eauto|].
   exfalso. exact (den_nullable n Hnn H).
 Qed.
 
@@ -632,11 +696,11 @@ Proof.
 Qed.
 
 Definition ev_good (n : node) (e : ev) : Prop :=
-  match e with EErr a o => GoodErr n a o | _ => True end.
+  match e with Ev TErr false a o => GoodErr n a o | _ => True end.
 
 Lemma ev_good_shift n c e : In c (kids n) -> ev_good c e -> ev_good n (ev_shift (key c) e).
 Proof.
-  destruct e; cbn; auto. intros Hin (ma & pi & H1 & H2 & H3 & ->).
+  destruct e as [t b p o]. destruct t, b; cbn; auto. intros Hin (ma & pi & H1 & H2 & H3 & ->).
   exists ma, pi. repeat split; auto. constructor; assumption.
 Qed.
 
@@ -646,87 +710,88 @@ Proof.
   apply ev_good_shift; [assumption|]. rewrite Forall_forall in H. auto.
 Qed.
 
-Lemma good_trivial n (f : pos -> ev) l :
-  (forall p, match f p with EErr _ _ => False | _ => True end) -> Forall (ev_good n) (map f l).
-Proof.
-  intros Hf. apply Forall_forall. intros e He. apply in_map_iff in He as (p & <- & _).
-  specialize (Hf p). destruct (f p); try exact I. contradiction.
-Qed.
+Lemma good_map n {A} (f : A -> ev) l : (forall x, ev_good n (f x)) -> Forall (ev_good n) (map f l).
+Proof. intros Hf. apply Forall_forall. intros e He. apply in_map_iff in He as (p & <- & _). apply Hf. Qed.
 
-Definition FinishGood (c : node) : Prop :=
-  Forall (ev_good c) (snd (finish c)) /\
-  forall e, fst (finish c) = RFail e -> nonnull c = true /\ Bad c e.
+Lemma good_bg n e : ev_good n (to_bg e).
+Proof. destruct e as [t b p o]. destruct t; exact I. Qed.
 
-Lemma handle_good n k e evs :
+Definition FinishGood (lp : bool) (c : node) : Prop :=
+  Forall (ev_good c) (snd (finish lp c)) /\
+  forall e zs, fst (finish lp c) = RFail e zs -> nonnull c = true /\ Bad c e.
+
+Lemma handle_good n k e zs evs :
   Forall (ev_good n) evs -> Bad n e ->
-  Forall (ev_good n) (snd (handle (nonnull n) k e evs)) /\
-  forall e', fst (handle (nonnull n) k e evs) = RFail e' -> nonnull n = true /\ Bad n e'.
+  Forall (ev_good n) (snd (handle (nonnull n) k e zs evs)) /\
+  forall e' zs', fst (handle (nonnull n) k e zs evs) = RFail e' zs' -> nonnull n = true /\ Bad n e'.
 Proof.
   intros H1 H2. unfold handle. destruct (nonnull n) eqn:E; cbn [fst snd].
-  - split; [assumption|]. intros e' [= <-]. auto.
+  - split; [assumption|]. intros e' zs' [= <- _]. auto.
   - split; [|discriminate]. apply Forall_app. split; [assumption|]. constructor; [|constructor].
     exists n, e. repeat split; auto. constructor.
 Qed.
 
-Lemma start_from_good n kd : forall rest acc,
-  incl rest (kids n) -> Forall FinishGood rest ->
-  Forall (ev_good n) (snd (start_from kd acc rest)) /\
-  forall e, fst (start_from kd acc rest) = KFail e -> Bad n e.
+Lemma start_from_good lp n kd : forall rest acc,
+  incl rest (kids n) -> Forall (FinishGood lp) rest ->
+  Forall (ev_good n) (snd (start_from lp kd acc rest)) /\
+  forall e zs, fst (start_from lp kd acc rest) = KFail e zs -> Bad n e.
 Proof.
   induction rest as [|c r IH]; intros acc Hi HF; cbn [start_from].
   - split; [constructor|discriminate].
   - destruct (blocked kd acc); [split; [constructor|discriminate]|].
     inversion HF as [|? ? [Hc1 Hc2] Hr]; subst.
     assert (Hin : In c (kids n)) by (apply Hi; left; reflexivity).
-    assert (Hs : Forall (ev_good c) (snd (start c)) /\
-                 forall e, fst (start c) = RFail e -> nonnull c = true /\ Bad c e).
+    assert (Hs : Forall (ev_good c) (snd (start lp c)) /\
+                 forall e zs, fst (start lp c) = RFail e zs -> nonnull c = true /\ Bad c e).
     { unfold start. destruct (is_async c); [split; [constructor|discriminate]|auto]. }
-    destruct (start c) as [rc e1]. cbn [fst snd] in Hs. destruct Hs as [Hs1 Hs2].
+    destruct (start lp c) as [rc e1]. cbn [fst snd] in Hs. destruct Hs as [Hs1 Hs2].
     assert (Hg1 : Forall (ev_good n) (ECall [key c] :: shift (key c) e1))
       by (constructor; [exact I|apply good_shift; assumption]).
-    destruct rc as [s|e].
+    destruct rc as [s|e zs].
     + specialize (IH (acc ++ [s]) (fun x Hx => Hi x (or_intror Hx)) Hr).
-      destruct (start_from kd (acc ++ [s]) r) as [r2 e2]. cbn [fst snd] in *.
+      destruct (start_from lp kd (acc ++ [s]) r) as [r2 e2]. cbn [fst snd] in *.
       split; [apply Forall_app; split; [assumption|apply IH]|apply IH].
-    + cbn [fst snd]. destruct (Hs2 e eq_refl) as [Hnn Hb]. split.
-      * apply Forall_app. split; [assumption|]. apply good_trivial. intros; exact I.
-      * intros e' [= <-]. constructor; assumption.
+    + cbn [fst snd]. destruct (Hs2 e zs eq_refl) as [Hnn Hb]. split.
+      * apply Forall_app. split; [assumption|]. apply good_map. intros; exact I.
+      * intros e' zs' [= <- _]. constructor; assumption.
 Qed.
 
 Lemma finish_kids_good n k kd r evs :
-  Forall (ev_good n) evs -> (forall e, r = KFail e -> Bad n e) ->
+  Forall (ev_good n) evs -> (forall e zs, r = KFail e zs -> Bad n e) ->
   Forall (ev_good n) (snd (finish_kids (nonnull n) k kd (r, evs))) /\
-  forall e', fst (finish_kids (nonnull n) k kd (r, evs)) = RFail e' -> nonnull n = true /\ Bad n e'.
+  forall e' zs', fst (finish_kids (nonnull n) k kd (r, evs)) = RFail e' zs' -> nonnull n = true /\ Bad n e'.
 Proof.
-  intros H1 H2. destruct r as [sts rest|e]; cbn [finish_kids].
+  intros H1 H2. destruct r as [sts rest|e zs]; cbn [finish_kids].
   - split; [assumption|discriminate].
-  - apply handle_good; auto.
+  - apply handle_good; eauto.
 Qed.
 
-Lemma finish_good : forall n, FinishGood n.
+Lemma finish_good lp : forall n, FinishGood lp n.
 Proof.
   apply node_ind'. intros k nn a o ks IH. unfold FinishGood.
   set (n := Node k nn a o ks).
   destruct o.
-  - exact (handle_good n k [] [] (Forall_nil _) (Bad_here n (or_introl eq_refl))).
+  - exact (handle_good n k [] [] [] (Forall_nil _) (Bad_here n (or_introl eq_refl))).
   - cbn [finish]. destruct nn eqn:E.
-    + exact (handle_good n k [] [] (Forall_nil _) (Bad_here n (or_intror (conj eq_refl eq_refl)))).
+    + exact (handle_good n k [] [] [] (Forall_nil _) (Bad_here n (or_intror (conj eq_refl eq_refl)))).
     + split; [constructor|discriminate].
   - split; [constructor|discriminate].
   - subst n. rewrite finish_eq.
-    destruct (start_from_good (Node k nn a (OKids kd) ks) kd ks [] (incl_refl _) IH) as [H1 H2].
-    destruct (start_from kd [] ks) as [r2 e2]. cbn [fst snd] in *.
+    destruct (start_from_good lp (Node k nn a (OKids kd) ks) kd ks [] (incl_refl _) IH) as [H1 H2].
+    destruct (start_from lp kd [] ks) as [r2 e2]. cbn [fst snd] in *.
     exact (finish_kids_good (Node k nn a (OKids kd) ks) k kd r2 e2 H1 H2).
 Qed.
 
 Lemma complete_good : forall s n pi r evs, Rep s n -> complete pi s = Some (r, evs) ->
-  Forall (ev_good n) evs /\ forall e, r = RFail e -> nonnull n = true /\ Bad n e.
+  Forall (ev_good n) evs /\ forall e zs, r = RFail e zs -> nonnull n = true /\ Bad n e.
 Proof.
-  induction s as [m|k d|k nn kd sts rest IH] using st_ind'; intros n pi r evs HR Hc.
+  induction s as [m|k d bg _|k nn kd sts rest IH] using st_ind'; intros n pi r evs HR Hc.
   - inversion HR; subst. destruct pi; cbn in Hc; [|discriminate].
-    destruct (finish_good n) as [H1 H2]. destruct (finish n) as [r0 e0]. inversion Hc; subst.
+    destruct (finish_good true n) as [H1 H2]. destruct (finish true n) as [r0 e0]. inversion Hc; subst.
     split; [constructor; [exact I|exact H1]|exact H2].
-  - discriminate.
+  - rewrite complete_done in Hc. destruct pi as [|c pi']; [discriminate|].
+    destruct (complete_kids c pi' bg) as [|pre rx post ex]; [discriminate|]. inversion Hc; subst.
+    split; [apply good_map; apply good_bg|discriminate].
   - rewrite complete_run in Hc. destruct pi as [|c pi']; [discriminate|].
     destruct (complete_kids c pi' sts) as [|pre rx post ex] eqn:Ek; [discriminate|].
     apply complete_kids_spec in Ek as (x & -> & Hk & Hcx).
@@ -737,26 +802,28 @@ Proof.
     rewrite Forall_forall in IH. destruct (IH x (in_elt _ _ _) y pi' _ _ Hxy Hcx) as [Hg Hf].
     pose proof (rep_key _ _ Hxy) as Hky. rewrite Hky in Hc.
     assert (Hgs : Forall (ev_good n) (shift (key y) ex)) by (apply good_shift; assumption).
-    destruct rx as [x'|e].
-    + destruct (start_from_good n kd rest (pre ++ x' :: post)) as [G1 G2].
+    destruct rx as [x'|e zs].
+    + destruct (start_from_good true n kd rest (pre ++ x' :: post)) as [G1 G2].
       { cbn [n kids]. apply incl_appr, incl_refl. }
       { apply Forall_forall. intros; apply finish_good. }
-      destruct (start_from kd (pre ++ x' :: post) rest) as [r2 e2]. cbn [fst snd] in *.
+      destruct (start_from true kd (pre ++ x' :: post) rest) as [r2 e2]. cbn [fst snd] in *.
       pose proof (finish_kids_good n k kd r2 (shift (key y) ex ++ e2)) as Hfk.
       cbn [n nonnull] in Hfk.
       assert (Hc' : finish_kids nn k kd (r2, shift (key y) ex ++ e2) = (r, evs)) by congruence.
       rewrite Hc' in Hfk. cbn [fst snd] in Hfk.
       destruct Hfk as [F1 F2]; [apply Forall_app; split; assumption|exact G2|].
-      split; [exact F1|]. intros e ->. apply F2. reflexivity.
-    + destruct (Hf e eq_refl) as [Hnn Hb].
-      pose proof (handle_good n k (key y :: e) (shift (key y) ex ++ map ECancel (pend_list (pre ++ post)))) as Hh.
+      split; [exact F1|]. intros e zs ->. eapply F2. reflexivity.
+    + destruct (Hf e zs eq_refl) as [Hnn Hb].
+      pose proof (handle_good n k (key y :: e) (map skel pre ++ ghost (key y) zs :: map skel post)
+                    (shift (key y) ex ++ map ECancel (live_list (pre ++ post)))) as Hh.
       cbn [n nonnull] in Hh.
-      assert (Hc' : handle nn k (key y :: e) (shift (key y) ex ++ map ECancel (pend_list (pre ++ post))) = (r, evs)) by congruence.
+      assert (Hc' : handle nn k (key y :: e) (map skel pre ++ ghost (key y) zs :: map skel post)
+                      (shift (key y) ex ++ map ECancel (live_list (pre ++ post))) = (r, evs)) by congruence.
       rewrite Hc' in Hh. cbn [fst snd] in Hh.
       destruct Hh as [F1 F2].
-      * apply Forall_app. split; [assumption|]. apply good_trivial. intros; exact I.
+      * apply Forall_app. split; [assumption|]. apply good_map. intros; exact I.
       * constructor; assumption.
-      * split; [exact F1|]. intros e0 ->. apply F2. reflexivity.
+      * split; [exact F1|]. intros e0 zs0 ->. eapply F2. reflexivity.
 Qed.
 
 (* ------------------------------------------------------------------ recorded nulled positions *)
@@ -771,29 +838,32 @@ Proof. unfold nulled_positions. rewrite errs_app, map_app. reflexivity. Qed.
 
 Lemma errs_shift k evs : errs (shift k evs) = map (fun ao => (k :: fst ao, k :: snd ao)) (errs evs).
 Proof.
-  induction evs as [|e r IH]; [reflexivity|]. destruct e; cbn; try exact IH.
+  induction evs as [|e r IH]; [reflexivity|]. destruct e as [t b p o]. destruct t, b; cbn; try exact IH.
   f_equal. exact IH.
 Qed.
 
 Lemma NP_shift k evs : NP (shift k evs) = map (cons k) (NP evs).
 Proof. unfold nulled_positions. rewrite errs_shift, !map_map. reflexivity. Qed.
 
-Lemma errs_trivial (f : pos -> ev) l :
-  (forall p, match f p with EErr _ _ => False | _ => True end) -> errs (map f l) = [].
+Lemma errs_map_none {A} (f : A -> ev) l :
+  (forall x, match f x with Ev TErr false _ _ => False | _ => True end) -> errs (map f l) = [].
 Proof.
   intros Hf. induction l as [|p r IH]; [reflexivity|]. cbn [map].
   specialize (Hf p). unfold errs in *. cbn [flat_map]. rewrite IH.
-  destruct (f p); try reflexivity. contradiction.
+  destruct (f p) as [t b q o]. destruct t, b; try reflexivity. contradiction.
 Qed.
 
-Lemma NP_trivial (f : pos -> ev) l :
-  (forall p, match f p with EErr _ _ => False | _ => True end) -> NP (map f l) = [].
-Proof. intros H. unfold nulled_positions. rewrite errs_trivial by assumption. reflexivity. Qed.
+Lemma NP_map_none {A} (f : A -> ev) l :
+  (forall x, match f x with Ev TErr false _ _ => False | _ => True end) -> NP (map f l) = [].
+Proof. intros H. unfold nulled_positions. rewrite errs_map_none by assumption. reflexivity. Qed.
+
+Lemma NP_bg evs : NP (map to_bg evs) = [].
+Proof. apply NP_map_none. intros [t b p o]. destruct t; exact I. Qed.
 
 Fixpoint vis (s : st) : list pos :=
   match s with
   | SPend _ => []
-  | SDone _ d => dnulls d
+  | SDone _ d _ => dnulls d
   | SRun _ _ _ sts _ =>
       (fix go (l : list st) : list pos :=
          match l with
@@ -838,26 +908,26 @@ Proof.
   cbn [vis]. rewrite dnulls_kids. apply vis_all_done. exact E.
 Qed.
 
-Definition FinishVis (c : node) : Prop :=
-  match finish c with (ROk s, evs) => incl (vis s) (NP evs) | _ => True end.
+Definition FinishVis (lp : bool) (c : node) : Prop :=
+  match finish lp c with (ROk s, evs) => incl (vis s) (NP evs) | _ => True end.
 
-Lemma finish_key n s e : finish n = (ROk s, e) -> skey s = key n.
+Lemma finish_key lp n s e : finish lp n = (ROk s, e) -> skey s = key n.
 Proof.
-  intros H. pose proof (finish_spec n) as Hs. unfold FinishSpec in Hs. rewrite H in Hs. apply rep_key. exact Hs.
+  intros H. pose proof (finish_spec lp n) as Hs. unfold FinishSpec in Hs. rewrite H in Hs. apply rep_key. exact Hs.
 Qed.
 
-Lemma start_key c s e : start c = (ROk s, e) -> skey s = key c.
+Lemma start_key lp c s e : start lp c = (ROk s, e) -> skey s = key c.
 Proof. unfold start. destruct (is_async c); [intros [= <- _]; reflexivity|apply finish_key]. Qed.
 
-Lemma start_vis c : FinishVis c -> match start c with (ROk s, evs) => incl (vis s) (NP evs) | _ => True end.
+Lemma start_vis lp c : FinishVis lp c -> match start lp c with (ROk s, evs) => incl (vis s) (NP evs) | _ => True end.
 Proof. unfold start, FinishVis. destruct (is_async c); [intros _ p []|auto]. Qed.
 
 Lemma incl_map_cons k (a b : list pos) : incl a b -> incl (map (cons k) a) (map (cons k) b).
 Proof. intros H p Hp. apply in_map_iff in Hp as (q & <- & Hq). apply in_map. auto. Qed.
 
-Lemma start_from_vis kd : forall rest acc,
-  Forall FinishVis rest ->
-  match start_from kd acc rest with
+Lemma start_from_vis lp kd : forall rest acc,
+  Forall (FinishVis lp) rest ->
+  match start_from lp kd acc rest with
   | (KOk sts rest', evs) => incl (vis_list sts) (vis_list acc ++ NP evs)
   | _ => True
   end.
@@ -865,19 +935,19 @@ Proof.
   induction rest as [|c r IH]; intros acc HF; cbn [start_from].
   - cbn. rewrite app_nil_r. apply incl_refl.
   - destruct (blocked kd acc); [cbn; rewrite app_nil_r; apply incl_refl|].
-    inversion HF as [|? ? Hc Hr]; subst. pose proof (start_vis c Hc) as Hs.
-    destruct (start c) as [[s|e] e1] eqn:Es; [|exact I].
-    specialize (IH (acc ++ [s]) Hr). destruct (start_from kd (acc ++ [s]) r) as [[sts rest'|e] e2]; [|exact I].
+    inversion HF as [|? ? Hc Hr]; subst. pose proof (start_vis lp c Hc) as Hs.
+    destruct (start lp c) as [[s|e zs] e1] eqn:Es; [|exact I].
+    specialize (IH (acc ++ [s]) Hr). destruct (start_from lp kd (acc ++ [s]) r) as [[sts rest'|e zs] e2]; [|exact I].
     rewrite vis_list_app, vis_list_one in IH.
-    rewrite (start_key _ _ _ Es) in IH.
+    rewrite (start_key _ _ _ _ Es) in IH.
     change (ECall [key c] :: shift (key c) e1) with ([ECall [key c]] ++ shift (key c) e1).
     rewrite !NP_app, NP_shift. cbn [app]. change (NP [ECall [key c]]) with (@nil pos). cbn [app].
     intros p Hp. apply IH in Hp. rewrite !in_app_iff in *. destruct Hp as [[Hp|Hp]|Hp]; auto.
     right. left. revert Hp. apply incl_map_cons. exact Hs.
 Qed.
 
-Lemma handle_vis nn k e evs (base : list pos) :
-  match handle nn k e evs with (ROk s, evs') => incl (vis s) (base ++ NP evs') | _ => True end.
+Lemma handle_vis nn k e zs evs (base : list pos) :
+  match handle nn k e zs evs with (ROk s, evs') => incl (vis s) (base ++ NP evs') | _ => True end.
 Proof.
   unfold handle. destruct nn; [exact I|]. rewrite NP_app. cbn. intros p [<-|[]].
   rewrite !in_app_iff. right. right. left. reflexivity.
@@ -887,19 +957,19 @@ Lemma finish_kids_vis nn k kd r evs (base : list pos) :
   match r with KOk sts rest => incl (vis_list sts) (base ++ NP evs) | _ => True end ->
   match finish_kids nn k kd (r, evs) with (ROk s, evs') => incl (vis s) (base ++ NP evs') | _ => True end.
 Proof.
-  destruct r as [sts rest|e]; cbn [finish_kids]; intros H.
+  destruct r as [sts rest|e zs]; cbn [finish_kids]; intros H.
   - rewrite pack_vis. exact H.
   - apply handle_vis.
 Qed.
 
-Lemma finish_vis : forall n, FinishVis n.
+Lemma finish_vis lp : forall n, FinishVis lp n.
 Proof.
   apply node_ind'. intros k nn a o ks IH. unfold FinishVis. destruct o.
-  - exact (handle_vis nn k [] [] []).
-  - cbn [finish]. destruct nn; [exact (handle_vis true k [] [] [])|]. intros p [].
+  - exact (handle_vis nn k [] [] [] []).
+  - cbn [finish]. destruct nn; [exact (handle_vis true k [] [] [] [])|]. intros p [].
   - intros p [].
-  - rewrite finish_eq. pose proof (start_from_vis kd ks [] IH) as H.
-    destruct (start_from kd [] ks) as [r2 e2]. exact (finish_kids_vis nn k kd r2 e2 [] H).
+  - rewrite finish_eq. pose proof (start_from_vis lp kd ks [] IH) as H.
+    destruct (start_from lp kd [] ks) as [r2 e2]. exact (finish_kids_vis nn k kd r2 e2 [] H).
 Qed.
 
 Lemma complete_key s n pi s' e : Rep s n -> complete pi s = Some (ROk s', e) -> skey s' = skey s.
@@ -911,23 +981,25 @@ Qed.
 Lemma complete_vis : forall s n pi s' evs, Rep s n -> complete pi s = Some (ROk s', evs) ->
   incl (vis s') (vis s ++ NP evs).
 Proof.
-  induction s as [m|k d|k nn kd sts rest IH] using st_ind'; intros n pi s' evs HR Hc.
+  induction s as [m|k d bg _|k nn kd sts rest IH] using st_ind'; intros n pi s' evs HR Hc.
   - destruct pi; cbn in Hc; [|discriminate].
-    pose proof (finish_vis m) as H. unfold FinishVis in H. destruct (finish m) as [r0 e0].
+    pose proof (finish_vis true m) as H. unfold FinishVis in H. destruct (finish true m) as [r0 e0].
     inversion Hc; subst. exact H.
-  - discriminate.
+  - rewrite complete_done in Hc. destruct pi as [|c pi']; [discriminate|].
+    destruct (complete_kids c pi' bg) as [|pre rx post ex]; [discriminate|]. inversion Hc; subst.
+    cbn [vis]. apply incl_appl, incl_refl.
   - rewrite complete_run in Hc. destruct pi as [|c pi']; [discriminate|].
     destruct (complete_kids c pi' sts) as [|pre rx post ex] eqn:Ek; [discriminate|].
     apply complete_kids_spec in Ek as (x & -> & Hk & Hcx).
     inversion HR as [| |? ? a ? ks1 ? ? HF Hnd]; subst.
     apply Forall2_app_inv_l' in HF as (l1' & y & l2' & Hks1 & H1 & Hxy & H2).
     rewrite Forall_forall in IH. rewrite vis_run.
-    destruct rx as [x'|e].
+    destruct rx as [x'|e zs].
     + pose proof (IH x (in_elt _ _ _) y pi' x' ex Hxy Hcx) as Hv.
       pose proof (complete_key _ _ _ _ _ Hxy Hcx) as Hkk.
-      pose proof (start_from_vis kd rest (pre ++ x' :: post)
-                    (proj2 (Forall_forall _ _) (fun c _ => finish_vis c))) as Hs.
-      destruct (start_from kd (pre ++ x' :: post) rest) as [r2 e2].
+      pose proof (start_from_vis true kd rest (pre ++ x' :: post)
+                    (proj2 (Forall_forall _ _) (fun c _ => finish_vis true c))) as Hs.
+      destruct (start_from true kd (pre ++ x' :: post) rest) as [r2 e2].
       pose proof (finish_kids_vis nn k kd r2 (shift (skey x) ex ++ e2) (vis_list (pre ++ x :: post))) as Hf.
       assert (Hc' : finish_kids nn k kd (r2, shift (skey x) ex ++ e2) = (ROk s', evs)) by congruence.
       rewrite Hc' in Hf. apply Hf. destruct r2 as [sts' rest'|]; [|exact I].
@@ -937,9 +1009,11 @@ Proof.
       apply in_map_iff in Hp as (q & <- & Hq). apply Hv in Hq. apply in_app_iff in Hq as [Hq|Hq].
       * left. right. left. apply in_map. exact Hq.
       * right. left. apply in_map. exact Hq.
-    + pose proof (handle_vis nn k (skey x :: e) (shift (skey x) ex ++ map ECancel (pend_list (pre ++ post)))
+    + pose proof (handle_vis nn k (skey x :: e) (map skel pre ++ ghost (skey x) zs :: map skel post)
+                    (shift (skey x) ex ++ map ECancel (live_list (pre ++ post)))
                     (vis_list (pre ++ x :: post))) as Hh.
-      assert (Hc' : handle nn k (skey x :: e) (shift (skey x) ex ++ map ECancel (pend_list (pre ++ post))) = (ROk s', evs)) by congruence.
+      assert (Hc' : handle nn k (skey x :: e) (map skel pre ++ ghost (skey x) zs :: map skel post)
+                      (shift (skey x) ex ++ map ECancel (live_list (pre ++ post))) = (ROk s', evs)) by congruence.
       rewrite Hc' in Hh. exact Hh.
 Qed.
 
@@ -953,15 +1027,36 @@ Proof.
     destruct Hp as [Hp|Hp]; auto. apply H2 in Hp. rewrite in_app_iff in Hp. tauto.
 Qed.
 
-Theorem visible_nulls_recorded root sched k d evs :
-  Exec root sched (SDone k d) evs -> incl (dnulls d) (NP evs).
+Theorem visible_nulls_recorded lp root sched k d bg evs :
+  Exec lp root sched (SDone k d bg) evs -> incl (dnulls d) (NP evs).
 Proof.
   intros (s0 & e0 & e1 & Hi & Hr & ->).
-  pose proof (init_rep root) as HR. rewrite Hi in HR.
+  pose proof (init_rep lp root) as HR. rewrite Hi in HR.
   pose proof (run_vis _ _ _ _ root Hr HR) as H. cbn [vis] in H.
-  pose proof (finish_vis root) as H0. unfold FinishVis, init in *. rewrite Hi in H0.
+  pose proof (finish_vis lp root) as H0. unfold FinishVis, init in *. rewrite Hi in H0.
   rewrite NP_app. intros p Hp. apply H in Hp. rewrite !in_app_iff in *. destruct Hp; auto.
 Qed.
+
+(* response keys are unique among siblings *)
+Fixpoint wfk (n : node) : Prop :=
+  match n with
+  | Node _ _ _ o ks =>
+      match o with
+      | OKids _ =>
+          NoDup (map key ks) /\
+          (fix go (l : list node) : Prop := match l with [] => True | c :: r => wfk c /\ go r end) ks
+      | _ => True
+      end
+  end.
+
+Lemma wfk_kids k nn a kd ks :
+  wfk (Node k nn a (OKids kd) ks) <-> NoDup (map key ks) /\ Forall wfk ks.
+Proof.
+  cbn [wfk]. split; intros [H1 H2]; (split; [exact H1|]).
+  - induction ks as [|c r IH]; constructor; [apply H2|]. apply IH; [inversion H1; assumption|apply H2].
+  - induction H2 as [|c r Hc _ IH]; [exact I|]. split; [exact Hc|]. apply IH. inversion H1; assumption.
+Qed.
+
 
 (* ------------------------------------------------------------------ cancelled / orphaned awaitables lie below a nulled position *)
 
@@ -977,8 +1072,14 @@ Lemma dropped_shift k evs p : In p (dropped (shift k evs)) -> exists q, p = k ::
 Proof.
   unfold dropped, cancelled, orphaned, shift. rewrite !in_app_iff, !in_flat_map.
   intros [(e & He & Hp)|(e & He & Hp)]; apply in_map_iff in He as (e' & <- & He');
-    destruct e'; cbn in Hp; try contradiction; destruct Hp as [<-|[]];
+    destruct e' as [t b q o]; destruct t, b; cbn in Hp; try contradiction; destruct Hp as [<-|[]];
     eexists; (split; [reflexivity|]); rewrite in_app_iff, !in_flat_map; [left|right]; eexists; (split; [eassumption|left; reflexivity]).
+Qed.
+
+Lemma dropped_bg evs : dropped (map to_bg evs) = [].
+Proof.
+  unfold dropped, cancelled, orphaned. induction evs as [|[t b p o] r IH]; [reflexivity|].
+  cbn [map flat_map to_bg]. apply app_eq_nil in IH as [H1 H2]. rewrite H1, H2. destruct t; reflexivity.
 Qed.
 
 Lemma nulled_app P Q p : nulled (P ++ Q) p = nulled P p || nulled Q p.
@@ -1009,26 +1110,26 @@ Qed.
 Lemma covered_nodrop evs : dropped evs = [] -> covered evs.
 Proof. intros H p Hp. rewrite H in Hp. destruct Hp. Qed.
 
-Definition FinishCov (c : node) : Prop :=
-  match finish c with (ROk s, evs) => covered evs | _ => True end.
+Definition FinishCov (lp : bool) (c : node) : Prop :=
+  match finish lp c with (ROk s, evs) => covered evs | _ => True end.
 
-Lemma handle_cov nn k e evs : match handle nn k e evs with (ROk s, evs') => covered evs' | _ => True end.
+Lemma handle_cov nn k e zs evs : match handle nn k e zs evs with (ROk s, evs') => covered evs' | _ => True end.
 Proof.
   unfold handle. destruct nn; [exact I|]. apply covered_root. rewrite NP_app, in_app_iff. right. left. reflexivity.
 Qed.
 
-Lemma start_from_cov kd : forall rest acc,
-  Forall FinishCov rest ->
-  match start_from kd acc rest with (KOk _ _, evs) => covered evs | _ => True end.
+Lemma start_from_cov lp kd : forall rest acc,
+  Forall (FinishCov lp) rest ->
+  match start_from lp kd acc rest with (KOk _ _, evs) => covered evs | _ => True end.
 Proof.
   induction rest as [|c r IH]; intros acc HF; cbn [start_from].
   - apply covered_nodrop. reflexivity.
   - destruct (blocked kd acc); [apply covered_nodrop; reflexivity|].
     inversion HF as [|? ? Hc Hr]; subst.
-    assert (Hs : match start c with (ROk s, evs) => covered evs | _ => True end).
+    assert (Hs : match start lp c with (ROk s, evs) => covered evs | _ => True end).
     { unfold start, FinishCov in *. destruct (is_async c); [apply covered_nodrop; reflexivity|exact Hc]. }
-    destruct (start c) as [[s|e] e1]; [|exact I].
-    specialize (IH (acc ++ [s]) Hr). destruct (start_from kd (acc ++ [s]) r) as [[sts rest'|e] e2]; [|exact I].
+    destruct (start lp c) as [[s|e zs] e1]; [|exact I].
+    specialize (IH (acc ++ [s]) Hr). destruct (start_from lp kd (acc ++ [s]) r) as [[sts rest'|e zs] e2]; [|exact I].
     change (ECall [key c] :: shift (key c) e1) with ([ECall [key c]] ++ shift (key c) e1).
     apply covered_app; [apply covered_app; [apply covered_nodrop; reflexivity|apply covered_shift; exact Hs]|exact IH].
 Qed.
@@ -1038,38 +1139,42 @@ Lemma finish_kids_cov nn k kd r evs :
   match finish_kids nn k kd (r, evs) with (ROk s, evs') => covered evs' | _ => True end.
 Proof. destruct r; cbn [finish_kids]; intros H; [exact H|apply handle_cov]. Qed.
 
-Lemma finish_cov : forall n, FinishCov n.
+Lemma finish_cov lp : forall n, FinishCov lp n.
 Proof.
   apply node_ind'. intros k nn a o ks IH. unfold FinishCov. destruct o.
-  - exact (handle_cov nn k [] []).
-  - cbn [finish]. destruct nn; [exact (handle_cov true k [] [])|apply covered_nodrop; reflexivity].
+  - exact (handle_cov nn k [] [] []).
+  - cbn [finish]. destruct nn; [exact (handle_cov true k [] [] [])|apply covered_nodrop; reflexivity].
   - apply covered_nodrop; reflexivity.
-  - rewrite finish_eq. pose proof (start_from_cov kd ks [] IH) as H.
-    destruct (start_from kd [] ks) as [r2 e2]. exact (finish_kids_cov nn k kd r2 e2 H).
+  - rewrite finish_eq. pose proof (start_from_cov lp kd ks [] IH) as H.
+    destruct (start_from lp kd [] ks) as [r2 e2]. exact (finish_kids_cov nn k kd r2 e2 H).
 Qed.
 
 Lemma complete_cov : forall s pi s' evs, complete pi s = Some (ROk s', evs) -> covered evs.
 Proof.
-  induction s as [m|k d|k nn kd sts rest IH] using st_ind'; intros pi s' evs Hc.
+  induction s as [m|k d bg _|k nn kd sts rest IH] using st_ind'; intros pi s' evs Hc.
   - destruct pi; cbn in Hc; [|discriminate].
-    pose proof (finish_cov m) as H. unfold FinishCov in H. destruct (finish m) as [r0 e0].
+    pose proof (finish_cov true m) as H. unfold FinishCov in H. destruct (finish true m) as [r0 e0].
     inversion Hc; subst. change (EDone [] :: e0) with ([EDone []] ++ e0).
     apply covered_app; [apply covered_nodrop; reflexivity|exact H].
-  - discriminate.
+  - rewrite complete_done in Hc. destruct pi as [|c pi']; [discriminate|].
+    destruct (complete_kids c pi' bg) as [|pre rx post ex]; [discriminate|]. inversion Hc; subst.
+    apply covered_nodrop. apply dropped_bg.
   - rewrite complete_run in Hc. destruct pi as [|c pi']; [discriminate|].
     destruct (complete_kids c pi' sts) as [|pre rx post ex] eqn:Ek; [discriminate|].
     apply complete_kids_spec in Ek as (x & -> & Hk & Hcx).
-    rewrite Forall_forall in IH. destruct rx as [x'|e].
+    rewrite Forall_forall in IH. destruct rx as [x'|e zs].
     + pose proof (IH x (in_elt _ _ _) pi' x' ex Hcx) as Hv.
-      pose proof (start_from_cov kd rest (pre ++ x' :: post)
-                    (proj2 (Forall_forall _ _) (fun c _ => finish_cov c))) as Hs.
-      destruct (start_from kd (pre ++ x' :: post) rest) as [r2 e2].
+      pose proof (start_from_cov true kd rest (pre ++ x' :: post)
+                    (proj2 (Forall_forall _ _) (fun c _ => finish_cov true c))) as Hs.
+      destruct (start_from true kd (pre ++ x' :: post) rest) as [r2 e2].
       pose proof (finish_kids_cov nn k kd r2 (shift c ex ++ e2)) as Hf.
       assert (Hc' : finish_kids nn k kd (r2, shift c ex ++ e2) = (ROk s', evs)) by congruence.
       rewrite Hc' in Hf. apply Hf. destruct r2; [|exact I].
       apply covered_app; [apply covered_shift; exact Hv|exact Hs].
-    + pose proof (handle_cov nn k (c :: e) (shift c ex ++ map ECancel (pend_list (pre ++ post)))) as Hh.
-      assert (Hc' : handle nn k (c :: e) (shift c ex ++ map ECancel (pend_list (pre ++ post))) = (ROk s', evs)) by congruence.
+    + pose proof (handle_cov nn k (c :: e) (map skel pre ++ ghost c zs :: map skel post)
+                    (shift c ex ++ map ECancel (live_list (pre ++ post)))) as Hh.
+      assert (Hc' : handle nn k (c :: e) (map skel pre ++ ghost c zs :: map skel post)
+                      (shift c ex ++ map ECancel (live_list (pre ++ post))) = (ROk s', evs)) by congruence.
       rewrite Hc' in Hh. exact Hh.
 Qed.
 
@@ -1079,11 +1184,11 @@ Proof.
   apply covered_app; [exact (complete_cov _ _ _ _ Hc)|exact IH].
 Qed.
 
-Theorem dropped_covered root sched s evs :
-  Exec root sched s evs -> forall p, In p (cancelled evs ++ orphaned evs) -> nulled (NP evs) p = true.
+Theorem dropped_covered lp root sched s evs :
+  Exec lp root sched s evs -> forall p, In p (cancelled evs ++ orphaned evs) -> nulled (NP evs) p = true.
 Proof.
   intros (s0 & e0 & e1 & Hi & Hr & ->).
-  pose proof (finish_cov root) as H0. unfold FinishCov, init in *. rewrite Hi in H0.
+  pose proof (finish_cov lp root) as H0. unfold FinishCov, init in *. rewrite Hi in H0.
   exact (covered_app _ _ H0 (run_cov _ _ _ _ Hr)).
 Qed.
 
@@ -1210,27 +1315,28 @@ Qed.
 
 (* ------------------------------------------------------------------ (c) errors, (d) well-formedness *)
 
-Theorem errors_characterised root sched s evs :
-  Exec root sched s evs -> forall a o, In (a, o) (errs evs) -> GoodErr root a o.
+Theorem errors_characterised lp root sched s evs :
+  Exec lp root sched s evs -> forall a o, In (a, o) (errs evs) -> GoodErr root a o.
 Proof.
   intros (s0 & e0 & e1 & Hi & Hr & ->) a o Hin.
   assert (H0 : Forall (ev_good root) e0).
-  { destruct (finish_good root) as [H _]. unfold init in Hi. rewrite Hi in H. exact H. }
-  assert (HR : Rep s0 root) by (pose proof (init_rep root) as H; rewrite Hi in H; exact H).
+  { destruct (finish_good lp root) as [H _]. unfold init in Hi. rewrite Hi in H. exact H. }
+  assert (HR : Rep s0 root) by (pose proof (init_rep lp root) as H; rewrite Hi in H; exact H).
   assert (H1 : Forall (ev_good root) e1).
   { clear Hi H0 Hin. induction Hr as [s0|s0 pi s1 e1 sched s2 e2 Hc _ IH]; [constructor|].
     apply Forall_app. split; [exact (proj1 (complete_good _ _ _ _ _ HR Hc))|].
     apply IH. pose proof (complete_rep s0 root pi HR) as H. rewrite Hc in H. exact H. }
   assert (H : Forall (ev_good root) (e0 ++ e1)) by (apply Forall_app; split; assumption).
   rewrite Forall_forall in H. unfold errs in Hin. apply in_flat_map in Hin as (e & He & Hin).
-  specialize (H e He). destruct e; cbn in Hin; try contradiction. destruct Hin as [[= <- <-]|[]]. exact H.
+  specialize (H e He). destruct e as [t b p q]. destruct t, b; cbn in Hin; try contradiction.
+  destruct Hin as [[= <- <-]|[]]. exact H.
 Qed.
 
-Corollary reported_are_raised root sched s evs o :
-  Exec root sched s evs -> In o (error_paths evs) -> exists m, At root o m /\ raises m.
+Corollary reported_are_raised lp root sched s evs o :
+  Exec lp root sched s evs -> In o (error_paths evs) -> exists m, At root o m /\ raises m.
 Proof.
   intros He Hin. unfold error_paths in Hin. apply in_map_iff in Hin as ([a o'] & <- & Hin).
-  destruct (errors_characterised _ _ _ _ He a o' Hin) as (ma & pi & Hat & _ & Hb & ->).
+  destruct (errors_characterised _ _ _ _ _ He a o' Hin) as (ma & pi & Hat & _ & Hb & ->).
   destruct (Bad_at _ _ Hb) as (mo & H1 & H2). exists mo. split; [|assumption].
   exact (At_trans _ _ _ Hat _ _ H1).
 Qed.
@@ -1242,18 +1348,18 @@ Proof.
   - intros (o & H). exists (a, o). auto.
 Qed.
 
-Theorem outermost_nulled root sched s evs :
-  wfk root -> nonnull root = false -> Exec root sched s evs -> final s ->
-  exists d, s = SDone (key root) d /\ den root = Some d /\
+Theorem outermost_nulled lp root sched s evs :
+  wfk root -> nonnull root = false -> Exec lp root sched s evs -> final s ->
+  exists d bg, s = SDone (key root) d bg /\ den root = Some d /\
             forall p, outermost (NP evs) p <-> In p (dnulls d).
 Proof.
   intros Hw Hnn He Hf.
-  destruct (order_independent _ _ _ _ Hnn He Hf) as (d & _ & -> & Hd & _).
-  exists d. split; [reflexivity|]. split; [assumption|].
-  pose proof (visible_nulls_recorded _ _ _ _ _ He) as Hrec.
+  destruct (order_independent _ _ _ _ _ Hnn He Hf) as (d & bg & _ & _ & -> & Hd & _).
+  exists d, bg. split; [reflexivity|]. split; [assumption|].
+  pose proof (visible_nulls_recorded _ _ _ _ _ _ _ He) as Hrec.
   assert (Hcov : forall a, In a (NP evs) -> nulled (dnulls d) a = true).
   { intros a Ha. apply in_NP in Ha as (o & Ha). eapply gooderr_below_null; [eassumption|].
-    exact (errors_characterised _ _ _ _ He a o Ha). }
+    exact (errors_characterised _ _ _ _ _ He a o Ha). }
   intros p. split.
   - intros [Hin Hmin]. apply Hcov in Hin as Hc. apply nulled_inv in Hc as (q & Hq & Hpre).
     rewrite <- (Hmin q (Hrec q Hq) Hpre). exact Hq.
@@ -1271,24 +1377,28 @@ Proof.
   - rewrite Forall_forall in *. intros c Hc. apply in_map_iff in Hc as (c' & <- & Hc'). auto.
 Qed.
 
-Lemma sync_is_exec root s e : sync_result root = (ROk s, e) -> Exec (desync root) [] s e /\ final s.
+Lemma sync_is_exec root s e : sync_result root = (ROk s, e) -> Exec false (desync root) [] s e /\ final s.
 Proof.
   intros H. split.
   - exists s, e, []. split; [exact H|]. split; [constructor|]. rewrite app_nil_r. reflexivity.
-  - unfold sync_result, init in H. pose proof (finish_weight (desync root)) as Hw. unfold FinishW in Hw.
-    rewrite H in Hw. apply pend_weight. pose proof (asyncs_desync root) as Ha. rewrite asyncs_eq in Ha. lia.
+  - unfold sync_result, init in H. pose proof (finish_weight false (desync root)) as Hw. unfold FinishW in Hw.
+    rewrite H in Hw. cbn [fst weight_res] in Hw.
+    pose proof (finish_spec false (desync root)) as Hs. unfold FinishSpec in Hs. rewrite H in Hs.
+    unfold final. destruct (is_done s) eqn:Ed; [reflexivity|exfalso].
+    apply (rep_pending s _ Hs Ed). apply pend_weight.
+    pose proof (asyncs_desync root) as Ha. rewrite asyncs_eq in Ha. lia.
 Qed.
 
-Theorem outermost_nulled_sync_async root sched s evs ssync esync :
-  wfk root -> nonnull root = false -> Exec root sched s evs -> final s ->
+Theorem outermost_nulled_sync_async lp root sched s evs ssync esync :
+  wfk root -> nonnull root = false -> Exec lp root sched s evs -> final s ->
   sync_result root = (ROk ssync, esync) ->
   forall p, outermost (NP evs) p <-> outermost (NP esync) p.
 Proof.
   intros Hw Hnn He Hf Hs p.
-  destruct (outermost_nulled _ _ _ _ Hw Hnn He Hf) as (d & _ & Hd & H1).
+  destruct (outermost_nulled _ _ _ _ _ Hw Hnn He Hf) as (d & bg & _ & Hd & H1).
   destruct (sync_is_exec _ _ _ Hs) as [He' Hf'].
   assert (Hnn' : nonnull (desync root) = false) by (destruct root; exact Hnn).
-  destruct (outermost_nulled _ _ _ _ (wfk_desync _ Hw) Hnn' He' Hf') as (d' & _ & Hd' & H2).
+  destruct (outermost_nulled _ _ _ _ _ (wfk_desync _ Hw) Hnn' He' Hf') as (d' & bg' & _ & Hd' & H2).
   rewrite den_desync, Hd in Hd'. inversion Hd'; subst. rewrite H1, H2. reflexivity.
 Qed.
 
@@ -1329,27 +1439,27 @@ Proof.
       rewrite N.eqb_refl, (Hc dc eq_refl), (IHr fr eq_refl). reflexivity.
 Qed.
 
-Theorem response_wellformed root sched s evs :
-  nonnull root = false -> Exec root sched s evs -> final s ->
-  exists d, s = SDone (key root) d /\
+Theorem response_wellformed lp root sched s evs :
+  nonnull root = false -> Exec lp root sched s evs -> final s ->
+  exists d bg, s = SDone (key root) d bg /\
     wfd root d = true /\
     (forall o, In o (error_paths evs) -> nulled (dnulls d) o = true) /\
     (forall p, In p (dnulls d) -> exists o, In (p, o) (errs evs) /\ prefixb p o = true) /\
     (d = DNull true <-> In [] (NP evs)).
 Proof.
   intros Hnn He Hf.
-  destruct (order_independent _ _ _ _ Hnn He Hf) as (d & _ & -> & Hd & _).
-  exists d. split; [reflexivity|]. split; [exact (den_wfd _ _ Hd)|].
-  pose proof (visible_nulls_recorded _ _ _ _ _ He) as Hrec.
+  destruct (order_independent _ _ _ _ _ Hnn He Hf) as (d & bg & _ & _ & -> & Hd & _).
+  exists d, bg. split; [reflexivity|]. split; [exact (den_wfd _ _ Hd)|].
+  pose proof (visible_nulls_recorded _ _ _ _ _ _ _ He) as Hrec.
   split; [|split].
-  - intros o Ho. destruct (reported_are_raised _ _ _ _ _ He Ho) as (m & H1 & H2).
+  - intros o Ho. destruct (reported_are_raised _ _ _ _ _ _ He Ho) as (m & H1 & H2).
     exact (raised_below_null root d o m Hd H1 H2).
   - intros p Hp. apply Hrec, in_NP in Hp as (o & Ho). exists o. split; [assumption|].
-    destruct (errors_characterised _ _ _ _ He p o Ho) as (_ & pi & _ & _ & _ & ->). apply prefixb_app.
+    destruct (errors_characterised _ _ _ _ _ He p o Ho) as (_ & pi & _ & _ & _ & ->). apply prefixb_app.
   - split.
     + intros ->. apply Hrec. left. reflexivity.
     + intros Hin. apply in_NP in Hin as (o & Ho).
-      pose proof (gooderr_below_null root d [] o Hd (errors_characterised _ _ _ _ He _ _ Ho)) as Hc.
+      pose proof (gooderr_below_null root d [] o Hd (errors_characterised _ _ _ _ _ He _ _ Ho)) as Hc.
       apply nulled_inv in Hc as (q & Hq & Hpre). destruct q; [|discriminate].
       destruct d as [[|]| |kd fs]; [reflexivity|destruct Hq|destruct Hq|].
       rewrite dnulls_kids in Hq.
@@ -1369,6 +1479,7 @@ Proof.
     + destruct (exec s r) as [[s2 e2] sk]. inversion H.
 Qed.
 
+
 (* ------------------------------------------------------------------ (e) serial fields *)
 
 (* root field an event belongs to (none for the root position itself) *)
@@ -1387,18 +1498,49 @@ Proof. apply flat_map_app. Qed.
 Lemma fields_shift k evs : fields (shift k evs) = repeat k (length evs).
 Proof.
   induction evs as [|e r IH]; [reflexivity|]. cbn [shift map length repeat fields flat_map].
-  fold (shift k r). fold (fields (shift k r)). rewrite IH. destruct e; reflexivity.
+  fold (shift k r). fold (fields (shift k r)). rewrite IH. destruct e as [t b p o]. destruct t; reflexivity.
 Qed.
 
-Lemma all_done_pend l : all_done l = true -> pend_list l = [].
+Lemma fields_bg evs : fields (map to_bg evs) = fields evs.
+Proof.
+  induction evs as [|e r IH]; [reflexivity|]. cbn [map fields flat_map]. fold (fields (map to_bg r)).
+  rewrite IH. destruct e; reflexivity.
+Qed.
+
+Definition all_settled (l : list st) : bool := forallb settled l.
+
+Lemma settled_pend s : settled s = true -> pend s = [].
+Proof. unfold settled. intros H. apply andb_true_iff in H as [_ H]. destruct (pend s); [reflexivity|discriminate]. Qed.
+
+Lemma settled_done s : settled s = true -> is_done s = true.
+Proof. unfold settled. intros H. apply andb_true_iff in H as [H _]. exact H. Qed.
+
+Lemma all_settled_pend l : all_settled l = true -> pend_list l = [].
 Proof.
   induction l as [|c r IH]; [reflexivity|]. intros H.
-  change (is_done c && all_done r = true) in H. apply andb_true_iff in H as [H1 H2].
-  destruct c; try discriminate. unfold pend_list in *. cbn [flat_map pend map app]. auto.
+  change (settled c && all_settled r = true) in H. apply andb_true_iff in H as [H1 H2].
+  rewrite pend_list_cons, (settled_pend _ H1), (IH H2). reflexivity.
 Qed.
 
-Lemma all_done_app a b : all_done (a ++ b) = all_done a && all_done b.
+Lemma all_settled_live l : all_settled l = true -> live_list l = [].
+Proof.
+  induction l as [|c r IH]; [reflexivity|]. intros H.
+  change (settled c && all_settled r = true) in H. apply andb_true_iff in H as [H1 H2].
+  unfold live_list in *. cbn [flat_map]. rewrite (IH H2). apply settled_done in H1. destruct c; try discriminate. reflexivity.
+Qed.
+
+Lemma all_settled_skel l : all_settled l = true -> map skel l = l.
+Proof.
+  induction l as [|c r IH]; [reflexivity|]. intros H.
+  change (settled c && all_settled r = true) in H. apply andb_true_iff in H as [H1 H2].
+  cbn [map]. rewrite (IH H2). apply settled_done in H1. destruct c; try discriminate. reflexivity.
+Qed.
+
+Lemma all_settled_app a b : all_settled (a ++ b) = all_settled a && all_settled b.
 Proof. apply forallb_app. Qed.
+
+Lemma all_settled_in l x : all_settled l = true -> In x l -> settled x = true.
+Proof. unfold all_settled. rewrite forallb_forall. auto. Qed.
 
 Lemma Ord_nil_inv l : Ord [] l -> l = [].
 Proof. inversion 1; reflexivity. Qed.
@@ -1411,6 +1553,9 @@ Proof. induction 1; intros K'; cbn; [constructor|apply Ord_same; apply IHOrd|app
 
 Lemma Ord_repeat c K l n : Ord (c :: K) l -> Ord (c :: K) (repeat c n ++ l).
 Proof. intros H. induction n as [|n IH]; [exact H|]. cbn. apply Ord_same. exact IH. Qed.
+
+Lemma Ord_repeat_only c K n : Ord (c :: K) (repeat c n).
+Proof. rewrite <- (app_nil_r (repeat c n)). apply Ord_repeat. constructor. Qed.
 
 Lemma Ord_concat X l1 : Ord X l1 -> forall A c K2 l2,
   X = A ++ [c] -> Ord (c :: K2) l2 -> Ord (A ++ c :: K2) (l1 ++ l2).
@@ -1425,56 +1570,63 @@ Proof.
     + cbn. apply Ord_next. exact (IH A c K2 l2 eq_refl H2).
 Qed.
 
-Lemma start_from_ser : forall rest acc,
-  match start_from KSer acc rest with
+(* all pending awaitables lie below the child c *)
+Definition under (c : N) (ps : list pos) : Prop := forall q, In q ps -> exists q', q = c :: q'.
+
+Lemma call_fields c e1 : fields (ECall [c] :: shift c e1) = repeat c (S (length e1)).
+Proof.
+  change (ECall [c] :: shift c e1) with ([ECall [c]] ++ shift c e1).
+  rewrite fields_app, fields_shift. reflexivity.
+Qed.
+
+Lemma start_from_ser lp : forall rest acc,
+  match start_from lp KSer acc rest with
   | (KOk sts rest', evs) =>
       exists ks2 sts2, rest = ks2 ++ rest' /\ sts = acc ++ sts2 /\ map skey sts2 = map key ks2 /\
         Ord (map key ks2) (fields evs) /\
-        (all_done (removelast acc) = true -> all_done (removelast sts) = true) /\
-        (rest' <> [] -> all_done sts = false)
-  | (KFail _, evs) => Ord (map key rest) (fields evs)
+        (all_settled (removelast acc) = true -> all_settled (removelast sts) = true) /\
+        (rest' <> [] -> all_settled sts = false)
+  | (KFail _ zs, evs) =>
+      exists ks2 c r, rest = ks2 ++ c :: r /\ Ord (map key ks2 ++ [key c]) (fields evs) /\ under (key c) (pend_list zs)
   end.
 Proof.
   induction rest as [|c r IH]; intros acc; cbn [start_from].
   - exists [], []. cbn [app map]. rewrite app_nil_r. repeat split; auto; [constructor|intros H; exfalso; apply H; reflexivity].
-  - unfold blocked. destruct (all_done acc) eqn:Ea; cbn [negb].
-    + destruct (start c) as [[s|e] e1] eqn:Es.
-      * specialize (IH (acc ++ [s])). destruct (start_from KSer (acc ++ [s]) r) as [[sts rest'|e] e2].
+  - unfold blocked. fold (all_settled acc). destruct (all_settled acc) eqn:Ea; cbn [negb].
+    + destruct (start lp c) as [[s|e zs] e1] eqn:Es.
+      * specialize (IH (acc ++ [s])). destruct (start_from lp KSer (acc ++ [s]) r) as [[sts rest'|e zs] e2].
         -- destruct IH as (ks2 & sts2 & -> & -> & Hk & Ho & Hd & Hne).
            exists (c :: ks2), (s :: sts2). rewrite <- app_assoc. repeat split; auto.
-           ++ cbn [map]. rewrite Hk, (start_key _ _ _ Es). reflexivity.
-           ++ change (ECall [key c] :: shift (key c) e1) with ([ECall [key c]] ++ shift (key c) e1).
-              rewrite !fields_app, fields_shift. cbn [map].
-              change (fields [ECall [key c]]) with (repeat (key c) 1).
-              rewrite <- repeat_app. apply Ord_repeat. apply Ord_next. exact Ho.
+           ++ cbn [map]. rewrite Hk, (start_key _ _ _ _ Es). reflexivity.
+           ++ rewrite fields_app, call_fields. cbn [map]. apply Ord_repeat. apply Ord_next. exact Ho.
            ++ intros _. rewrite app_assoc. apply Hd. rewrite removelast_last. exact Ea.
            ++ rewrite app_assoc. exact Hne.
-        -- change (ECall [key c] :: shift (key c) e1) with ([ECall [key c]] ++ shift (key c) e1).
-           rewrite !fields_app, fields_shift. cbn [map].
-           change (fields [ECall [key c]]) with (repeat (key c) 1).
-           rewrite <- repeat_app. apply Ord_repeat. apply Ord_next. exact IH.
-      * rewrite (all_done_pend _ Ea). cbn [map]. rewrite app_nil_r.
-        change (ECall [key c] :: shift (key c) e1) with ([ECall [key c]] ++ shift (key c) e1).
-        rewrite fields_app, fields_shift. change (fields [ECall [key c]]) with (repeat (key c) 1).
-        rewrite <- repeat_app. rewrite <- (app_nil_r (repeat _ _)). apply Ord_repeat. constructor.
+        -- destruct IH as (ks2 & c' & r' & -> & Ho & Hu). exists (c :: ks2), c', r'.
+           split; [reflexivity|]. split; [|exact Hu].
+           rewrite fields_app, call_fields. cbn [map app]. apply Ord_repeat. apply Ord_next. exact Ho.
+      * exists [], c, r. split; [reflexivity|]. split.
+        -- rewrite (all_settled_live _ Ea). cbn [map]. rewrite app_nil_r, call_fields. cbn [map app].
+           apply Ord_repeat_only.
+        -- unfold abandon. destruct lp; [|intros q []]. intros q Hq. unfold pend_list in Hq.
+           rewrite flat_map_app, in_app_iff in Hq. fold (pend_list acc) in Hq.
+           rewrite (all_settled_pend _ Ea) in Hq. destruct Hq as [[]|Hq]. cbn in Hq. rewrite app_nil_r in Hq.
+           apply in_map_iff in Hq as (q' & <- & _). eauto.
     + exists [], []. cbn [app map]. rewrite app_nil_r. repeat split; auto. constructor.
 Qed.
 
-Lemma complete_done_none pi k d : complete pi (SDone k d) = None.
-Proof. reflexivity. Qed.
-
 Lemma complete_key' s pi s' e : complete pi s = Some (ROk s', e) -> skey s' = skey s.
 Proof.
-  destruct s as [n|k d|k nn kd sts rest]; intros H.
-  - destruct pi; cbn in H; [|discriminate]. destruct (finish n) as [r0 e0] eqn:Ef.
-    inversion H; subst. exact (finish_key _ _ _ Ef).
-  - discriminate.
+  destruct s as [n|k d bg|k nn kd sts rest]; intros H.
+  - destruct pi; cbn in H; [|discriminate]. destruct (finish true n) as [r0 e0] eqn:Ef.
+    inversion H; subst. exact (finish_key _ _ _ _ Ef).
+  - rewrite complete_done in H. destruct pi as [|c pi']; [discriminate|].
+    destruct (complete_kids c pi' bg) as [|pre rx post ex]; [discriminate|]. inversion H; reflexivity.
   - rewrite complete_run in H. destruct pi as [|c pi']; [discriminate|].
     destruct (complete_kids c pi' sts) as [|pre rx post ex]; [discriminate|].
-    assert (Hh : forall e0 evs0, handle nn k e0 evs0 = (ROk s', e) -> skey s' = k).
-    { unfold handle. intros e0 evs0. destruct nn; intros [= <- _]; reflexivity. }
-    destruct rx as [x'|o]; [|inversion H; eauto].
-    destruct (start_from kd (pre ++ x' :: post) rest) as [[sts' rest'|o] e2]; cbn [finish_kids] in H; [|inversion H; eauto].
+    assert (Hh : forall e0 zs0 evs0, handle nn k e0 zs0 evs0 = (ROk s', e) -> skey s' = k).
+    { unfold handle. intros e0 zs0 evs0. destruct nn; intros [= <- _]; reflexivity. }
+    destruct rx as [x'|o zs]; [|inversion H; eauto].
+    destruct (start_from true kd (pre ++ x' :: post) rest) as [[sts' rest'|o zs] e2]; cbn [finish_kids] in H; [|inversion H; eauto].
     inversion H; subst. unfold pack. destruct rest'; [destruct (all_done sts')|]; reflexivity.
 Qed.
 
@@ -1487,130 +1639,191 @@ Proof.
     apply in_elt.
 Qed.
 
-Lemma all_done_in l x : all_done l = true -> In x l -> is_done x = true.
-Proof. unfold all_done. rewrite forallb_forall. auto. Qed.
-
-(* the current (last started, unfinished) field is c, the fields K2 are not started *)
+(* a serial node at work: the current (last started) field is c, the fields K2 are not started,
+   the earlier fields are done and nothing is pending below them *)
 Definition SerInv (c : N) (K2 : list N) (s : st) : Prop :=
   exists k nn pre x rest,
-    s = SRun k nn KSer (pre ++ [x]) rest /\ all_done pre = true /\ skey x = c /\ map key rest = K2.
+    s = SRun k nn KSer (pre ++ [x]) rest /\ all_settled pre = true /\ skey x = c /\ map key rest = K2.
+
+(* a finished serial node: whatever is still pending (background work) lies below field c *)
+Definition DoneInv (c : N) (s : st) : Prop := is_done s = true /\ under c (pend s).
 
 Lemma fields_err_root evs o : fields (evs ++ [EErr [] o]) = fields evs.
 Proof. rewrite fields_app. cbn. apply app_nil_r. Qed.
 
-Lemma handle_ok nn k e evs s1 e1 :
-  handle nn k e evs = (ROk s1, e1) -> is_done s1 = true /\ fields e1 = fields evs.
+Lemma handle_ok nn k e zs evs s1 e1 :
+  handle nn k e zs evs = (ROk s1, e1) -> s1 = SDone k (DNull true) zs /\ fields e1 = fields evs.
 Proof.
   unfold handle. destruct nn; [discriminate|]. intros [= <- <-]. split; [reflexivity|apply fields_err_root].
 Qed.
 
+Lemma under_app c a b : under c a -> under c b -> under c (a ++ b).
+Proof. intros Ha Hb q Hq. apply in_app_iff in Hq as [Hq|Hq]; auto. Qed.
+
+Lemma under_nil c : under c [].
+Proof. intros q []. Qed.
+
+Lemma under_map c l : under c (map (cons c) l).
+Proof. intros q Hq. apply in_map_iff in Hq as (q' & <- & _). eauto. Qed.
+
+Lemma pend_list_app a b : pend_list (a ++ b) = pend_list a ++ pend_list b.
+Proof. apply flat_map_app. Qed.
+
+Lemma pend_list_snoc pre x : all_settled pre = true -> under (skey x) (pend_list (pre ++ [x])).
+Proof.
+  intros H. rewrite pend_list_app, (all_settled_pend _ H), pend_list_cons. cbn [app pend_list flat_map].
+  rewrite app_nil_r. apply under_map.
+Qed.
+
+Lemma done_step c s pi s1 e1 :
+  DoneInv c s -> complete pi s = Some (ROk s1, e1) ->
+  DoneInv c s1 /\ fields e1 = repeat c (length e1).
+Proof.
+  intros [Hd Hu] Hc. destruct s as [n|k d bg|k nn kd sts rest]; try discriminate.
+  pose proof (complete_pending _ _ _ _ Hc) as Hin. destruct (Hu _ Hin) as (pi' & ->).
+  rewrite complete_done in Hc.
+  destruct (complete_kids c pi' bg) as [|pre rx post ex] eqn:Ek; [discriminate|].
+  apply complete_kids_spec in Ek as (x & -> & Hk & Hcx). inversion Hc; subst. clear Hc.
+  split; [split; [reflexivity|]|].
+  - rewrite pend_done in *. rewrite pend_list_app, pend_list_cons in *.
+    intros q Hq. rewrite !in_app_iff in Hq. destruct Hq as [Hq|[Hq|Hq]].
+    + apply Hu. rewrite !in_app_iff. auto.
+    + assert (Hs : skey (settle_res (skey x) rx) = skey x).
+      { destruct rx; [exact (complete_key' _ _ _ _ Hcx)|reflexivity]. }
+      rewrite Hs in Hq. apply in_map_iff in Hq as (q' & <- & _). eauto.
+    + apply Hu. rewrite !in_app_iff. auto.
+  - rewrite fields_bg, fields_shift. unfold shift. rewrite !map_length. reflexivity.
+Qed.
+
 Lemma ser_step c K2 s pi s1 e1 :
   SerInv c K2 s -> complete pi s = Some (ROk s1, e1) ->
-  (is_done s1 = true /\ Ord (c :: K2) (fields e1)) \/
-  (exists M c' K2', c :: K2 = M ++ c' :: K2' /\ SerInv c' K2' s1 /\ Ord (M ++ [c']) (fields e1)).
+  exists M c' K2', c :: K2 = M ++ c' :: K2' /\ (SerInv c' K2' s1 \/ DoneInv c' s1) /\ Ord (M ++ [c']) (fields e1).
 Proof.
   intros (k & nn & pre & x & rest & -> & Hpre & <- & <-) Hc.
   rewrite complete_run in Hc. destruct pi as [|c0 pi']; [discriminate|].
   destruct (complete_kids c0 pi' (pre ++ [x])) as [|pre0 rx post ex] eqn:Ek; [discriminate|].
   apply complete_kids_spec in Ek as (x0 & Hsplit & <- & Hcx).
   apply snoc_split in Hsplit as [(-> & -> & ->)|Hin].
-  2:{ apply (all_done_in _ _ Hpre) in Hin. destruct x0; try discriminate. }
-  destruct rx as [x'|o].
+  2:{ apply (all_settled_in _ _ Hpre) in Hin. apply settled_pend in Hin.
+      apply complete_pending in Hcx. rewrite Hin in Hcx. destruct Hcx. }
+  destruct rx as [x'|o zs].
   - pose proof (complete_key' _ _ _ _ Hcx) as Hkx.
-    pose proof (start_from_ser rest (pre ++ [x'])) as Hs.
-    destruct (start_from KSer (pre ++ [x']) rest) as [[sts' rest'|o] e2]; cbn [finish_kids] in Hc.
+    pose proof (start_from_ser true rest (pre ++ [x'])) as Hs.
+    destruct (start_from true KSer (pre ++ [x']) rest) as [[sts' rest'|o zs] e2]; cbn [finish_kids] in Hc.
     + destruct Hs as (ks2 & sts2 & -> & -> & Hk & Ho & Hd & _).
-      inversion Hc as [[Hp He]]. clear Hc.
+      assert (Hp : pack k nn KSer ((pre ++ [x']) ++ sts2) rest' = s1) by congruence.
+      assert (He : shift (skey x) ex ++ e2 = e1) by congruence. clear Hc. subst e1.
       assert (Hord : Ord (skey x :: map key ks2) (fields (shift (skey x) ex ++ e2))).
       { rewrite fields_app, fields_shift. apply Ord_repeat. apply Ord_next. exact Ho. }
-      assert (Hall : all_done (removelast ((pre ++ [x']) ++ sts2)) = true)
+      assert (Hall : all_settled (removelast ((pre ++ [x']) ++ sts2)) = true)
         by (apply Hd; rewrite removelast_last; exact Hpre).
-      assert (Hrun : s1 = SRun k nn KSer ((pre ++ [x']) ++ sts2) rest' ->
-        exists M c' K2', skey x :: map key (ks2 ++ rest') = M ++ c' :: K2' /\
-          SerInv c' K2' s1 /\ Ord (M ++ [c']) (fields (shift (skey x) ex ++ e2))).
-      { intros ->. destruct sts2 as [|z sts2'] using rev_ind.
-        - destruct ks2; [|discriminate]. exists [], (skey x), (map key rest'). split; [reflexivity|]. split.
-          + exists k, nn, pre, x', rest'. rewrite app_nil_r. auto.
-          + exact Hord.
-        - clear IHsts2'. rewrite map_app in Hk. cbn [map] in Hk.
-          destruct ks2 as [|cz ks2'] using rev_ind; [destruct (map skey sts2'); discriminate|]. clear IHks2'.
-          rewrite map_app in Hk. cbn [map] in Hk. apply app_inj_tail in Hk as [Hk1 Hk2].
-          exists (skey x :: map key ks2'), (key cz), (map key rest'). split; [|split].
-          + rewrite <- app_assoc, !map_app. cbn [map app]. reflexivity.
-          + exists k, nn, ((pre ++ [x']) ++ sts2'), z, rest'. split; [rewrite <- !app_assoc; reflexivity|].
-            split; [|split; [exact Hk2|reflexivity]].
-            rewrite app_assoc, removelast_last in Hall. exact Hall.
-          + rewrite map_app in Hord. cbn [map] in Hord. exact Hord. }
-      destruct rest' as [|r0 rest'].
-      * destruct (all_done ((pre ++ [x']) ++ sts2)) eqn:Ead.
-        -- left. subst. unfold pack. rewrite Ead. split; [reflexivity|]. rewrite app_nil_r. exact Hord.
-        -- right. subst. apply Hrun. unfold pack. rewrite Ead. reflexivity.
-      * right. subst. apply Hrun. reflexivity.
-    + left. assert (Hc' : handle nn k o (shift (skey x) ex ++ e2) = (ROk s1, e1)) by congruence.
-      apply handle_ok in Hc' as [Hd He'].
-      split; [exact Hd|]. rewrite He', fields_app, fields_shift. apply Ord_repeat. apply Ord_next. exact Hs.
-  - left. assert (Hc' : handle nn k (skey x :: o) (shift (skey x) ex ++ map ECancel (pend_list (pre ++ []))) = (ROk s1, e1)) by congruence.
-    apply handle_ok in Hc' as [Hd He'].
-    split; [exact Hd|]. rewrite app_nil_r, (all_done_pend _ Hpre) in He'. cbn [map] in He'. rewrite app_nil_r in He'.
-    rewrite He', fields_shift. rewrite <- (app_nil_r (repeat _ _)). apply Ord_repeat. constructor.
+      destruct sts2 as [|z sts2'] using rev_ind.
+      * destruct ks2; [|discriminate]. cbn [app map] in *. rewrite app_nil_r in *.
+        exists [], (skey x), (map key rest'). split; [reflexivity|]. split; [|exact Hord].
+        unfold pack in Hp. destruct rest' as [|r0 rest'].
+        -- destruct (all_done (pre ++ [x'])); subst s1.
+           ++ right. split; [reflexivity|]. rewrite pend_done, <- Hkx. apply pend_list_snoc. exact Hpre.
+           ++ left. exists k, nn, pre, x', []. auto.
+        -- subst s1. left. exists k, nn, pre, x', (r0 :: rest'). auto.
+      * clear IHsts2'. rewrite map_app in Hk. cbn [map] in Hk.
+        destruct ks2 as [|cz ks2'] using rev_ind; [destruct (map skey sts2'); discriminate|]. clear IHks2'.
+        rewrite map_app in Hk. cbn [map] in Hk. apply app_inj_tail in Hk as [Hk1 Hk2].
+        rewrite app_assoc, removelast_last in Hall.
+        exists (skey x :: map key ks2'), (key cz), (map key rest'). split; [|split].
+        -- rewrite <- app_assoc, !map_app. cbn [map app]. reflexivity.
+        -- unfold pack in Hp. rewrite app_assoc in Hp.
+           assert (Hrun : s1 = SRun k nn KSer (((pre ++ [x']) ++ sts2') ++ [z]) rest' -> SerInv (key cz) (map key rest') s1).
+           { intros ->. exists k, nn, ((pre ++ [x']) ++ sts2'), z, rest'. auto. }
+           destruct rest' as [|r0 rest'].
+           ++ destruct (all_done (((pre ++ [x']) ++ sts2') ++ [z])); subst s1; [|left; apply Hrun; reflexivity].
+              right. split; [reflexivity|]. rewrite pend_done, <- Hk2. apply pend_list_snoc. exact Hall.
+           ++ left. apply Hrun. auto.
+        -- rewrite map_app in Hord. cbn [map] in Hord. exact Hord.
+    + destruct Hs as (ks2 & c' & r' & -> & Ho & Hu).
+      assert (Hc' : handle nn k o zs (shift (skey x) ex ++ e2) = (ROk s1, e1)) by congruence.
+      apply handle_ok in Hc' as [-> He'].
+      exists (skey x :: map key ks2), (key c'), (map key r'). split; [|split].
+      * rewrite map_app. cbn [map]. reflexivity.
+      * right. split; [reflexivity|]. rewrite pend_done. exact Hu.
+      * rewrite He', fields_app, fields_shift. cbn [app]. apply Ord_repeat. apply Ord_next. exact Ho.
+  - assert (Hc' : handle nn k (skey x :: o) (map skel pre ++ ghost (skey x) zs :: map skel [])
+                    (shift (skey x) ex ++ map ECancel (live_list (pre ++ []))) = (ROk s1, e1)) by congruence.
+    apply handle_ok in Hc' as [-> He'].
+    exists [], (skey x), (map key rest). split; [reflexivity|]. split.
+    + right. split; [reflexivity|]. rewrite pend_done, (all_settled_skel _ Hpre). cbn [map].
+      change (ghost (skey x) zs) with (SDone (skey x) (DNull true) zs).
+      exact (pend_list_snoc pre (SDone (skey x) (DNull true) zs) Hpre).
+    + rewrite app_nil_r, (all_settled_live _ Hpre) in He'. cbn [map] in He'. rewrite app_nil_r in He'.
+      rewrite He', fields_shift. cbn [app]. apply Ord_repeat_only.
 Qed.
 
-Lemma run_done s sched s' evs : Run s sched s' evs -> is_done s = true -> sched = [] /\ s' = s /\ evs = [].
-Proof.
-  destruct 1 as [s|s pi s1 e1 sched s2 e2 Hc _]; intros Hd; [auto|].
-  destruct s; try discriminate.
-Qed.
-
-Lemma run_nostep s sched s' evs : Run s sched s' evs -> (forall pi, complete pi s = None) -> evs = [].
-Proof. destruct 1 as [s|s pi s1 e1 sched s2 e2 Hc _]; intros H; [reflexivity|]. rewrite H in Hc. discriminate. Qed.
-
-Lemma pack_nil_nostep k nn kd rest pi : complete pi (pack k nn kd [] rest) = None.
-Proof.
-  unfold pack. destruct rest; [reflexivity|]. rewrite complete_run. destruct pi; reflexivity.
-Qed.
-
-Lemma run_ser s sched s' evs : Run s sched s' evs -> forall c K2, SerInv c K2 s ->
-  Ord (c :: K2) (fields evs) /\ (is_done s' = true \/ exists c' K2', SerInv c' K2' s').
+Lemma run_ser s sched s' evs : Run s sched s' evs -> forall c K2, SerInv c K2 s \/ DoneInv c s ->
+  Ord (c :: K2) (fields evs) /\ exists c' K2', SerInv c' K2' s' \/ DoneInv c' s'.
 Proof.
   induction 1 as [s|s pi s1 e1 sched s2 e2 Hc Hr IH]; intros c K2 Hi.
-  - split; [constructor|]. right. eauto.
-  - rewrite fields_app. destruct (ser_step _ _ _ _ _ _ Hi Hc) as [[Hd Ho]|(M & c' & K2' & HK & Hi' & Ho)].
-    + destruct (run_done _ _ _ _ Hr Hd) as (_ & -> & ->). rewrite app_nil_r. auto.
-    + destruct (IH c' K2' Hi') as [Ho' Hfin]. split; [|exact Hfin].
+  - split; [constructor|]. eauto.
+  - rewrite fields_app. destruct Hi as [Hi|Hi].
+    + destruct (ser_step _ _ _ _ _ _ Hi Hc) as (M & c' & K2' & HK & Hi' & Ho).
+      destruct (IH c' K2' Hi') as [Ho' Hfin]. split; [|exact Hfin].
       rewrite HK. exact (Ord_concat _ _ Ho M c' K2' _ eq_refl Ho').
+    + destruct (done_step _ _ _ _ _ Hi Hc) as [Hi' Hf].
+      destruct (IH c K2 (or_intror Hi')) as [Ho' Hfin]. split; [|exact Hfin].
+      rewrite Hf. apply Ord_repeat. exact Ho'.
+Qed.
+
+Lemma run_nostep s sched s' evs : Run s sched s' evs -> pend s = [] -> evs = [] /\ s' = s.
+Proof.
+  destruct 1 as [s|s pi s1 e1 sched s2 e2 Hc _]; intros H; [auto|].
+  apply complete_pending in Hc. rewrite H in Hc. destruct Hc.
+Qed.
+
+(* the state a serial root is in after its synchronous part *)
+Lemma init_ser lp k nn a ks s0 e0 :
+  init lp (Node k nn a (OKids KSer) ks) = (ROk s0, e0) ->
+  (pend s0 = [] /\ Ord (map key ks) (fields e0)) \/
+  exists M c K2, map key ks = M ++ c :: K2 /\ (SerInv c K2 s0 \/ DoneInv c s0) /\ Ord (M ++ [c]) (fields e0).
+Proof.
+  unfold init. rewrite finish_eq. intros Hi.
+  pose proof (start_from_ser lp ks []) as Hs.
+  destruct (start_from lp KSer [] ks) as [[sts rest'|o zs] e2]; cbn [finish_kids] in Hi.
+  - destruct Hs as (ks2 & sts2 & -> & -> & Hk & Ho & Hd & Hne). cbn [app] in *. inversion Hi; subst. clear Hi.
+    specialize (Hd eq_refl).
+    destruct sts2 as [|z sts2'] using rev_ind.
+    + left. destruct ks2; [|discriminate]. cbn [app map] in *. unfold pack. destruct rest' as [|r0 rest'].
+      * cbn. split; [reflexivity|exact Ho].
+      * exfalso. assert (all_settled (@nil st) = false) by (apply Hne; discriminate). discriminate.
+    + right. clear IHsts2'. rewrite map_app in Hk. cbn [map] in Hk.
+      destruct ks2 as [|cz ks2'] using rev_ind; [destruct (map skey sts2'); discriminate|]. clear IHks2'.
+      rewrite map_app in Hk. cbn [map] in Hk. apply app_inj_tail in Hk as [Hk1 Hk2].
+      rewrite removelast_last in Hd.
+      exists (map key ks2'), (key cz), (map key rest'). split; [|split].
+      * rewrite <- app_assoc, !map_app. reflexivity.
+      * unfold pack. destruct rest' as [|r0 rest'].
+        -- destruct (all_done (sts2' ++ [z])).
+           ++ right. split; [reflexivity|]. rewrite pend_done, <- Hk2. apply pend_list_snoc. exact Hd.
+           ++ left. exists k, nn, sts2', z, []. auto.
+        -- left. exists k, nn, sts2', z, (r0 :: rest'). auto.
+      * rewrite map_app in Ho. exact Ho.
+  - destruct Hs as (ks2 & c' & r' & -> & Ho & Hu).
+    assert (Hh : handle nn k o zs e2 = (ROk s0, e0)) by exact Hi.
+    apply handle_ok in Hh as [-> Hf]. right.
+    exists (map key ks2), (key c'), (map key r'). split; [|split].
+    + rewrite map_app. reflexivity.
+    + right. split; [reflexivity|]. rewrite pend_done. exact Hu.
+    + rewrite Hf. exact Ho.
 Qed.
 
 (* the events of a serial root are grouped by root field, in document order: every event of field i
-   (resolver invocations, completions, recorded errors, cancellations, orphanings) precedes every event of field i+1 *)
-Theorem serial_order k nn a ks sched s evs :
-  Exec (Node k nn a (OKids KSer) ks) sched s evs -> Ord (map key ks) (fields evs).
+   (resolver invocations, completions, recorded errors, cancellations, abandoned awaitables and everything the
+   background work below the field does) precedes every event of field i+1 *)
+Theorem serial_order lp k nn a ks sched s evs :
+  Exec lp (Node k nn a (OKids KSer) ks) sched s evs -> Ord (map key ks) (fields evs).
 Proof.
-  intros (s0 & e0 & e1 & Hi & Hr & ->). unfold init in Hi. rewrite finish_eq in Hi.
-  pose proof (start_from_ser ks []) as Hs.
-  destruct (start_from KSer [] ks) as [[sts rest'|o] e2]; cbn [finish_kids] in Hi.
-  - destruct Hs as (ks2 & sts2 & -> & -> & Hk & Ho & Hd & _). cbn [app] in *. inversion Hi; subst. clear Hi.
-    rewrite fields_app, map_app.
-    assert (Hdone : is_done (pack k nn KSer sts2 rest') = true -> Ord (map key ks2 ++ map key rest') (fields e0 ++ fields e1)).
-    { intros Hdn. destruct (run_done _ _ _ _ Hr Hdn) as (_ & _ & ->). rewrite app_nil_r. apply Ord_app_r. exact Ho. }
-    destruct sts2 as [|z sts2'] using rev_ind.
-    + rewrite (run_nostep _ _ _ _ Hr (pack_nil_nostep k nn KSer rest')). rewrite app_nil_r.
-      apply Ord_app_r. exact Ho.
-    + clear IHsts2'. rewrite map_app in Hk. cbn [map] in Hk.
-      destruct ks2 as [|cz ks2'] using rev_ind; [destruct (map skey sts2'); discriminate|]. clear IHks2'.
-      rewrite map_app in Hk. cbn [map] in Hk. apply app_inj_tail in Hk as [Hk1 Hk2].
-      destruct (is_done (pack k nn KSer (sts2' ++ [z]) rest')) eqn:Edn; [apply Hdone; reflexivity|].
-      assert (Hp : pack k nn KSer (sts2' ++ [z]) rest' = SRun k nn KSer (sts2' ++ [z]) rest').
-      { unfold pack in *. destruct rest'; [destruct (all_done (sts2' ++ [z]))|]; try reflexivity. discriminate. }
-      rewrite Hp in Hr.
-      assert (Hinv : SerInv (key cz) (map key rest') (SRun k nn KSer (sts2' ++ [z]) rest')).
-      { exists k, nn, sts2', z, rest'. repeat split; auto.
-        specialize (Hd eq_refl). rewrite removelast_last in Hd. exact Hd. }
-      destruct (run_ser _ _ _ _ Hr _ _ Hinv) as [Ho' _].
-      rewrite map_app in Ho |- *. cbn [map] in Ho |- *. rewrite <- app_assoc. cbn [app].
-      exact (Ord_concat _ _ Ho (map key ks2') (key cz) (map key rest') _ eq_refl Ho').
-  - assert (Hh : handle nn k o e2 = (ROk s0, e0)) by exact Hi.
-    apply handle_ok in Hh as [Hdn Hf]. destruct (run_done _ _ _ _ Hr Hdn) as (_ & _ & ->).
-    rewrite app_nil_r, Hf. exact Hs.
+  intros (s0 & e0 & e1 & Hi & Hr & ->). rewrite fields_app.
+  destruct (init_ser _ _ _ _ _ _ _ Hi) as [[Hp Ho]|(M & c & K2 & -> & Hinv & Ho)].
+  - destruct (run_nostep _ _ _ _ Hr Hp) as [-> _]. rewrite app_nil_r. exact Ho.
+  - destruct (run_ser _ _ _ _ Hr c K2 Hinv) as [Ho' _].
+    exact (Ord_concat _ _ Ho M c K2 _ eq_refl Ho').
 Qed.
 
 Definition before (K : list N) (x y : N) : Prop := exists K1 K2 K3, K = K1 ++ x :: K2 ++ y :: K3.
@@ -1638,43 +1851,32 @@ Qed.
 
 (* an event of one root field is never followed by an event of a root field that comes earlier in the document
    (for distinct response keys [before] is a strict order) *)
-Corollary serial_no_overlap k nn a ks sched s evs l1 x l2 y l3 :
-  Exec (Node k nn a (OKids KSer) ks) sched s evs ->
+Corollary serial_no_overlap lp k nn a ks sched s evs l1 x l2 y l3 :
+  Exec lp (Node k nn a (OKids KSer) ks) sched s evs ->
   fields evs = l1 ++ x :: l2 ++ y :: l3 -> x = y \/ before (map key ks) x y.
-Proof. intros He Hf. exact (Ord_before _ _ (serial_order _ _ _ _ _ _ _ He) _ _ _ _ _ Hf). Qed.
+Proof. intros He Hf. exact (Ord_before _ _ (serial_order _ _ _ _ _ _ _ _ He) _ _ _ _ _ Hf). Qed.
 
-(* at most one root field is in progress: every reachable state of a serial root is finished or consists of
-   finished fields, ONE field in progress and fields that have not been started *)
-Theorem serial_one_at_a_time k nn a ks sched s evs :
-  Exec (Node k nn a (OKids KSer) ks) sched s evs ->
+(* at most one root field is at work: every reachable state of a serial root is done, or consists of fields that are
+   done with nothing pending below them, ONE field at work (running, or done with background work still pending below
+   it) and fields that have not been started *)
+Theorem serial_one_at_a_time lp k nn a ks sched s evs :
+  Exec lp (Node k nn a (OKids KSer) ks) sched s evs ->
   is_done s = true \/
-  exists pre x rest, s = SRun k nn KSer (pre ++ [x]) rest /\ all_done pre = true /\
+  exists pre x rest, s = SRun k nn KSer (pre ++ [x]) rest /\ all_settled pre = true /\
                      exists ks1, ks = ks1 ++ rest /\ map skey (pre ++ [x]) = map key ks1.
 Proof.
-  intros He. pose proof (exec_rep _ _ _ _ He) as HR.
+  intros He. pose proof (exec_rep _ _ _ _ _ He) as HR.
   assert (H : is_done s = true \/ exists c K2, SerInv c K2 s).
-  { destruct He as (s0 & e0 & e1 & Hi & Hr & ->). unfold init in Hi. rewrite finish_eq in Hi.
-    pose proof (start_from_ser ks []) as Hs.
-    destruct (start_from KSer [] ks) as [[sts0 rest0|o] e2]; cbn [finish_kids] in Hi.
-    - destruct Hs as (ks2 & sts2 & Hks & -> & Hk & Ho & Hd & Hne). cbn [app] in *. inversion Hi; subst. clear Hi.
-      destruct (is_done (pack k nn KSer sts2 rest0)) eqn:Edn.
-      + destruct (run_done _ _ _ _ Hr Edn) as (_ & -> & _). left. exact Edn.
-      + assert (Hp : pack k nn KSer sts2 rest0 = SRun k nn KSer sts2 rest0).
-        { unfold pack in *. destruct rest0; [destruct (all_done sts2)|]; try reflexivity. discriminate. }
-        rewrite Hp in Hr. specialize (Hd eq_refl).
-        destruct sts2 as [|z sts2'] using rev_ind.
-        * exfalso. unfold pack in Edn. destruct rest0; [discriminate|].
-          assert (all_done (@nil st) = false) by (apply Hne; discriminate). discriminate.
-        * clear IHsts2'. rewrite removelast_last in Hd.
-          assert (Hinv : SerInv (skey z) (map key rest0) (SRun k nn KSer (sts2' ++ [z]) rest0))
-            by (exists k, nn, sts2', z, rest0; auto).
-          exact (proj2 (run_ser _ _ _ _ Hr _ _ Hinv)).
-    - assert (Hh : handle nn k o e2 = (ROk s0, e0)) by exact Hi.
-      apply handle_ok in Hh as [Hdn _]. destruct (run_done _ _ _ _ Hr Hdn) as (_ & -> & _). left. exact Hdn. }
+  { destruct He as (s0 & e0 & e1 & Hi & Hr & ->).
+    destruct (init_ser _ _ _ _ _ _ _ Hi) as [[Hp Ho]|(M & c & K2 & _ & Hinv & _)].
+    - destruct (run_nostep _ _ _ _ Hr Hp) as [_ ->].
+      pose proof (init_rep lp (Node k nn a (OKids KSer) ks)) as HR0. rewrite Hi in HR0.
+      destruct (is_done s0) eqn:Ed; [left; reflexivity|]. exfalso. exact (rep_pending _ _ HR0 Ed Hp).
+    - destruct (run_ser _ _ _ _ Hr c K2 Hinv) as [_ (c' & K2' & [Hs|[Hd _]])]; eauto. }
   destruct H as [H|(c & K2 & k' & nn' & pre & x & rest & -> & Hpre & _)]; [left; exact H|right].
   remember (Node k nn a (OKids KSer) ks) as root eqn:Er.
   remember (SRun k' nn' KSer (pre ++ [x]) rest) as s eqn:Es.
-  destruct HR as [n|n d Hd|k0 nn0 a0 kd0 ks1 rest0 sts HF Hnd]; try discriminate.
+  destruct HR as [n|n d bg Hd|k0 nn0 a0 kd0 ks1 rest0 sts HF Hnd]; try discriminate.
   inversion Er; inversion Es; subst.
   exists pre, x, rest. split; [reflexivity|]. split; [exact Hpre|].
   exists ks1. split; [reflexivity|apply rep_keys; exact HF].
